@@ -16,562 +16,619 @@ Definition terms (ts : list tok) (t : pt) : string :=
   digest (show_toks (Some ts)) ++ " " ++ digest (show_pt (Some t)) ++ " " ++ digest (show_pt (parse ts)).
 Definition terms_full (ts : list tok) (t : pt) : string :=
   show_toks (Some ts) ++ nl ++ show_pt (Some t) ++ nl ++ show_pt (parse ts).
-Eval vm_compute in ("<<<M2>>>" ++ check (runes_of_ascii "packet i8i8
-    {
-char[
-1
-] f32a@calculatedFrom(//	t
-""\n"" )
-    // packet A { u8 x, }
-    , repeat charz,}
-")).
-Eval vm_compute in ("<<<M12>>>" ++ check (runes_of_ascii "packet
-    charz //
-{ @rightPad( '0')
-repeat
-    //x
-    Packet//x
-msg_type `" ++ [233]%N ++ runes_of_ascii "`	, } options {repeatCount
-= false falsey  = int64
-}")).
-Eval vm_compute in ("<<<M22>>>" ++ check (runes_of_ascii "//	t
-packet Packet{ u64 tag
-,}
-")).
-Eval vm_compute in ("<<<M32>>>" ++ check (runes_of_ascii "root
-packet uint8x {}root packet  Pad
-{}")).
-Eval vm_compute in ("<<<M42>>>" ++ check (runes_of_ascii "MetaData crc
-{ } // @lengthOf(")).
-Eval vm_compute in ("<<<M52>>>" ++ check (runes_of_ascii "//x
-packet Header
-    {
-    body
-// " ++ [27880; 37322]%N ++ runes_of_ascii "
-// " ++ [27880; 37322]%N ++ runes_of_ascii "
-@calculatedFrom(
-    ""CRC32"" )
-`it's` ,repeat
-int64//x
-msg_type // " ++ [128512]%N ++ runes_of_ascii " emoji
+Eval vm_compute in ("<<<M2>>>" ++ check (runes_of_ascii "packet metadata
+{
+    charz	@calculatedFrom(
+    // `tick` ""quote"" 'q'
+    ""CRC32"")
 ,
-//	t
-//
-@tag( 0 ) zchar[ 0 //
-]
-    int
-//	t
-// @lengthOf(
-, }
-    // " ++ [128512]%N ++ runes_of_ascii " emoji
-    options { Packet=
-true
-    MetaDataX =
-""" ++ [28040; 24687]%N ++ runes_of_ascii """ A
-    = string} root packet	Logon {
-    @leftPad // " ++ [27880; 37322]%N ++ runes_of_ascii "
-('0' //x
-)Header//
-leftPad `doc` ,
-    f32a
-    {	rootA @lengthOf( calculatedFrom )	, int8
-Packet `line1
-line2` , } , repeat calculatedFrom
-    { // `tick` ""quote"" 'q'
-match
-packetx as len { 1:matchKey ,
-0123456789 :repeatCount ,
-""\" ++ [233]%N ++ runes_of_ascii """ :
-float , 255:
-    MetaDataX
-, },} ,
-//x
-// " ++ [27880; 37322]%N ++ runes_of_ascii "
-leftPad {  repeat roots{ //	t
-roots
-@calculatedFrom(/// triple
-""abc"" ),int32
-BodyLength @calculatedFrom( ""packet"" )
+    MetaDataX, } packet uint8x	{ }
+    options{//
+}options{ u8x= """ ++ [128512]%N ++ runes_of_ascii """; crc = 0123456789 ; stringy
+    =
+false;
+rootA = float32 ; }
+
+")).
+Eval vm_compute in ("<<<M12>>>" ++ check (runes_of_ascii "options	{
+    // `tick` ""quote"" 'q'
+    _x// trailing space 
+=""" ++ [28040; 24687]%N ++ runes_of_ascii """ ; }
+")).
+Eval vm_compute in ("<<<M22>>>" ++ check (runes_of_ascii "
+MetaData string_ { uint32 f32a `crlf
+line` ,
+    zchar[ 0123456789
+    ]string_ `100% of %d`,stringy// `tick` ""quote"" 'q'
+u	`it's` ,char
+    Z9_
+, a1
+f32a // c
+,	char[ 1 ] a1
 ,
-}	, match repeatCount as
-matchKey { ""abc"" : u128 , """ ++ [128512]%N ++ runes_of_ascii """ : a1
-, ""a\\""
-:rootA ,	[  3,3 ]// c
-:
-x_y_z	007 :Foo
-    } ,
+    }
+")).
+Eval vm_compute in ("<<<M32>>>" ++ check (runes_of_ascii "
+
+")).
+Eval vm_compute in ("<<<M42>>>" ++ check (runes_of_ascii "options	{
+    // 50% %s
+    Foo
+=
+zchar[ 1
+    ]
+uint8x= ""// no comment""Pad =
+char[]
+    // 50% %s
+    ; // c
+A
+    =
+4294967296 a1
+    = ""`tick`"" ; } packet BodyLength {  @calculatedFrom(
+""packet""
+) roots `100% of %d` ,@tag(10 ) f32 uint8x `{ , }`/// triple
+,
 }
-, // c
-repeat rootA	matchKey	`it's` //	t
-,	a1
-    @calculatedFrom(""x y"" )  `line1
-line2` ,int	,
-    @tag(
+")).
+Eval vm_compute in ("<<<M52>>>" ++ check (runes_of_ascii "options  { o =// `tick` ""quote"" 'q'
+true
 // trailing space 
 //x
-65535) match metadata as	As
-{ ""x y"": Foo	,//x
-[ // `tick` ""quote"" 'q'
-""x y"" ]:
-    tag
-//
-// a // b
-, 3
-    : pack } ,repeat int8 charz ,char[] body , }
-options {
-    MetaDataX = char[ 0 ] ; } // a // b")).
-Eval vm_compute in ("<<<M62>>>" ++ check (runes_of_ascii "MetaData crc // trailing space 
-{}options
-{ metadata = 10 ; u = 65535
-repeatCount
-    = char[ 0123456789 // packet A { u8 x, }
-]  }MetaData i8i8{ }
-")).
-Eval vm_compute in ("<<<T62>>>" ++ terms [mkTok 37 "MetaData" 1 0 false; mkTok 42 "crc" 1 9 false; mkTok 44 "// trailing space " 1 13 true; mkTok 2 "{" 2 0 false; mkTok 3 "}" 2 1 false; mkTok 1 "options" 2 2 false; mkTok 2 "{" 3 0 false; mkTok 42 "metadata" 3 2 false; mkTok 4 "=" 3 11 false; mkTok 30 "10" 3 13 false; mkTok 41 ";" 3 16 false; mkTok 42 "u" 3 18 false; mkTok 4 "=" 3 20 false; mkTok 30 "65535" 3 22 false; mkTok 42 "repeatCount" 4 0 false; mkTok 4 "=" 5 4 false; mkTok 12 "char[" 5 6 false; mkTok 30 "0123456789" 5 12 false; mkTok 44 "// packet A { u8 x, }" 5 23 true; mkTok 13 "]" 6 0 false; mkTok 3 "}" 6 3 false; mkTok 37 "MetaData" 6 4 false; mkTok 42 "i8i8" 6 13 false; mkTok 2 "{" 6 17 false; mkTok 3 "}" 6 19 false; mkTok 0 "<EOF>" 7 0 false] (mkPacket (mkPtok 37 "MetaData" 1 0 0) (Some (mkPtok 3 "}" 6 19 24)) [(DMeta (mkMetaDef (mkSpan (mkPtok 37 "MetaData" 1 0 0) (mkPtok 3 "}" 2 1 4)) (mkPtok 37 "MetaData" 1 0 0) (mkPtok 42 "crc" 1 9 1) (mkPtok 2 "{" 2 0 3) [] (mkPtok 3 "}" 2 1 4))); (DOption (mkOptionDef (mkSpan (mkPtok 1 "options" 2 2 5) (mkPtok 3 "}" 6 3 20)) (mkPtok 1 "options" 2 2 5) (mkPtok 2 "{" 3 0 6) [(mkOptionDecl (mkSpan (mkPtok 42 "metadata" 3 2 7) (mkPtok 41 ";" 3 16 10)) (mkPtok 42 "metadata" 3 2 7) (mkPtok 4 "=" 3 11 8) (VDigits (mkSpan (mkPtok 30 "10" 3 13 9) (mkPtok 30 "10" 3 13 9)) (mkPtok 30 "10" 3 13 9)) (Some (mkPtok 41 ";" 3 16 10))); (mkOptionDecl (mkSpan (mkPtok 42 "u" 3 18 11) (mkPtok 30 "65535" 3 22 13)) (mkPtok 42 "u" 3 18 11) (mkPtok 4 "=" 3 20 12) (VDigits (mkSpan (mkPtok 30 "65535" 3 22 13) (mkPtok 30 "65535" 3 22 13)) (mkPtok 30 "65535" 3 22 13)) None); (mkOptionDecl (mkSpan (mkPtok 42 "repeatCount" 4 0 14) (mkPtok 13 "]" 6 0 19)) (mkPtok 42 "repeatCount" 4 0 14) (mkPtok 4 "=" 5 4 15) (VType (mkSpan (mkPtok 12 "char[" 5 6 16) (mkPtok 13 "]" 6 0 19)) (TyFixed (mkSpan (mkPtok 12 "char[" 5 6 16) (mkPtok 13 "]" 6 0 19)) (mkFixedString (mkSpan (mkPtok 12 "char[" 5 6 16) (mkPtok 13 "]" 6 0 19)) (mkPtok 12 "char[" 5 6 16) (mkPtok 30 "0123456789" 5 12 17) (mkPtok 13 "]" 6 0 19)))) None)] (mkPtok 3 "}" 6 3 20))); (DMeta (mkMetaDef (mkSpan (mkPtok 37 "MetaData" 6 4 21) (mkPtok 3 "}" 6 19 24)) (mkPtok 37 "MetaData" 6 4 21) (mkPtok 42 "i8i8" 6 13 22) (mkPtok 2 "{" 6 17 23) [] (mkPtok 3 "}" 6 19 24)))])).
-Eval vm_compute in ("<<<M72>>>" ++ check (runes_of_ascii "
-options {  MetaDataX= ""\" ++ [233]%N ++ runes_of_ascii """ }options {
-// @lengthOf(
-//	t
-Logon = ""1""
-    x_y_z = 65535  } MetaData
-    //	t
-    u8x {}
-")).
-Eval vm_compute in ("<<<M82>>>" ++ check (runes_of_ascii "packet u8x {
-    //	t
-    }
-
-")).
-Eval vm_compute in ("<<<M92>>>" ++ check (runes_of_ascii "// trailing space 
-packet tag {
-    @rightPad
-    // @lengthOf(
-    ( '0' )
-    u128 ,
-@lengthOf(MetaDataX
-    )
-    // c
-    leftPad, // packet A { u8 x, }
-@tag( 1
-    )calculatedFrom
-    @lengthOf( Logon )  , }
-packet string_	{ } packet u128 {char[	0 // packet A { u8 x, }
-]
-chars `say ""hi""`
-,
-int , @leftPad ( '0'
-// @lengthOf(
-//x
-)T { repeat zchar[ 255]
-int
-,zchar  stringy	, }
-    ,repeat zchar{ match leftPad as packetx
-{ [
-""`tick`""
-    ] :
-    lengthOf //x
-,  [  7,""" ++ [128512]%N ++ runes_of_ascii """
-    ,
-00 , ""x y"" , ""packet"" ] :
-    stringy // @lengthOf(
-, [
-42 ,""\n""
-, ""it's"" ,// " ++ [128512]%N ++ runes_of_ascii " emoji
-65535, 1	]
-: msg_type ""packet"" :	a1 ,} , u16 int
-,
-repeat x_y_z float,
-repeat//x
-u64 A `a\` ,
-} , }
-")).
-Eval vm_compute in ("<<<M102>>>" ++ check (runes_of_ascii "packet// a // b
-stringy  {
-    Logon { match
-    string_ as
-    i64_
-{ ""x y"":
-string_
-    ,
-// " ++ [27880; 37322]%N ++ runes_of_ascii "
-// `tick` ""quote"" 'q'
-""`tick`"" : string_
-,  1// " ++ [27880; 37322]%N ++ runes_of_ascii "
-:
-/// triple
-// c
-float , [ ""1""
-    ] :
-options1
+;Z9_  =false ; Z9_ =""" ++ [128512]%N ++ runes_of_ascii """;
     // " ++ [27880; 37322]%N ++ runes_of_ascii "
-    ,} , zchar[1 ] crc@calculatedFrom( """") `two words` , f32a , float32 lengthOf ,
-}
-, @tag(255) u8x @calculatedFrom( // packet A { u8 x, }
-""abc""
-) `a\` , }
-")).
-Eval vm_compute in ("<<<M112>>>" ++ check (runes_of_ascii "packet  o {  } // " ++ [128512]%N ++ runes_of_ascii " emoji")).
-Eval vm_compute in ("<<<M122>>>" ++ check (runes_of_ascii "root packet // packet A { u8 x, }
-f32a
-{ @lengthOf( int )char[]
-    //x
-    o, a1 @lengthOf( packetx
-) // " ++ [27880; 37322]%N ++ runes_of_ascii "
-`u8 x,`
-/// triple
-/// triple
+    } root packet f32a{  int8 metadata
 ,
-// " ++ [128512]%N ++ runes_of_ascii " emoji
+@leftPad (
+//x
 // @lengthOf(
-@calculatedFrom( ""1""
-)u8
-Header ,
-    }")).
-Eval vm_compute in ("<<<M132>>>" ++ check (runes_of_ascii "root packet As// `tick` ""quote"" 'q'
+)
+float32	int
+`100% of %d` , } packet float {@calculatedFrom( ""// no comment"") @tag( 65535 ) @lengthOf(
+msg_type ) match
+    u as A
 {
-    @calculatedFrom( ""{,}""	)zchar[ 4294967296
-    // packet A { u8 x, }
-    ]As ,@tag( 7 ) repeat
-    pack
-    {body
-    {// trailing space 
-zchar[
-65535 //x
-] MetaDataX `doc`
-, string_ @lengthOf( // " ++ [27880; 37322]%N ++ runes_of_ascii "
-Logon  ) , i64 MetaDataX@calculatedFrom( """" )// " ++ [27880; 37322]%N ++ runes_of_ascii "
-`a\`, //x
-repeat char[] Foo,	} ,
-/// triple
-// packet A { u8 x, }
-},@lengthOf( MetaDataX
-    ) @calculatedFrom(
-""\n""	) @lengthOf( float )
-char[ 0123456789 ] a1 @calculatedFrom( ""a\""b"") ,
-repeat msg_type  { // `tick` ""quote"" 'q'
-repeat f64 Packet`a\` , int64 asx@calculatedFrom( ""{,}"" )`" ++ [233]%N ++ runes_of_ascii "`  ,zchar[3  ]
-    metadata	,	zchar[
-00 ] x_y_z
-    @calculatedFrom( ""CRC32""
-) , }, } packet calculatedFrom // a // b
-{ match calculatedFrom as BodyLength{ 65535
-: Foo ,
-    }, match
-    int as falsey {  42 : body, [ ""abc""
-// " ++ [128512]%N ++ runes_of_ascii " emoji
-// " ++ [27880; 37322]%N ++ runes_of_ascii "
-,
-    ""\n"" , ""abc""
-,""" ++ [28040; 24687]%N ++ runes_of_ascii """	]:stringy
-    // `tick` ""quote"" 'q'
-    , [0123456789
-, ""{,}""
-,
-42
-    , 1
-]// " ++ [27880; 37322]%N ++ runes_of_ascii "
-: trueish , ""`tick`"" :metadata ,  [ ""1"" , ""a	b"" , 42
-]
-: zchar}
-    ,repeat zchar[  4294967296 ]stringy `line1
-line2`
-, } options // @lengthOf(
-{stringy= // packet A { u8 x, }
-' '/// triple
-; }")).
-Eval vm_compute in ("<<<T132>>>" ++ terms [mkTok 34 "root" 1 0 false; mkTok 35 "packet" 1 5 false; mkTok 42 "As" 1 12 false; mkTok 44 "// `tick` ""quote"" 'q'" 1 14 true; mkTok 2 "{" 2 0 false; mkTok 5 "@calculatedFrom(" 3 4 false; mkTok 31 """{,}""" 3 21 false; mkTok 6 ")" 3 27 false; mkTok 14 "zchar[" 3 28 false; mkTok 30 "4294967296" 3 35 false; mkTok 44 "// packet A { u8 x, }" 4 4 true; mkTok 13 "]" 5 4 false; mkTok 42 "As" 5 5 false; mkTok 40 "," 5 8 false; mkTok 9 "@tag(" 5 9 false; mkTok 30 "7" 5 15 false; mkTok 6 ")" 5 17 false; mkTok 36 "repeat" 5 19 false; mkTok 42 "pack" 6 4 false; mkTok 2 "{" 7 4 false; mkTok 42 "body" 7 5 false; mkTok 2 "{" 8 4 false; mkTok 44 "// trailing space " 8 5 true; mkTok 14 "zchar[" 9 0 false; mkTok 30 "65535" 10 0 false; mkTok 44 "//x" 10 6 true; mkTok 13 "]" 11 0 false; mkTok 42 "MetaDataX" 11 2 false; mkTok 43 "`doc`" 11 12 false; mkTok 40 "," 12 0 false; mkTok 42 "string_" 12 2 false; mkTok 7 "@lengthOf(" 12 10 false; mkTok 44 (string_of_bytes [47; 47; 32; 230; 179; 168; 233; 135; 138]%N) 12 21 true; mkTok 42 "Logon" 13 0 false; mkTok 6 ")" 13 7 false; mkTok 40 "," 13 9 false; mkTok 27 "i64" 13 11 false; mkTok 42 "MetaDataX" 13 15 false; mkTok 5 "@calculatedFrom(" 13 24 false; mkTok 31 """""" 13 41 false; mkTok 6 ")" 13 44 false; mkTok 44 (string_of_bytes [47; 47; 32; 230; 179; 168; 233; 135; 138]%N) 13 45 true; mkTok 43 "`a\`" 14 0 false; mkTok 40 "," 14 4 false; mkTok 44 "//x" 14 6 true; mkTok 36 "repeat" 15 0 false; mkTok 16 "char[]" 15 7 false; mkTok 42 "Foo" 15 14 false; mkTok 40 "," 15 17 false; mkTok 3 "}" 15 19 false; mkTok 40 "," 15 21 false; mkTok 44 "/// triple" 16 0 true; mkTok 44 "// packet A { u8 x, }" 17 0 true; mkTok 3 "}" 18 0 false; mkTok 40 "," 18 1 false; mkTok 7 "@lengthOf(" 18 2 false; mkTok 42 "MetaDataX" 18 13 false; mkTok 6 ")" 19 4 false; mkTok 5 "@calculatedFrom(" 19 6 false; mkTok 31 """\n""" 20 0 false; mkTok 6 ")" 20 5 false; mkTok 7 "@lengthOf(" 20 7 false; mkTok 42 "float" 20 18 false; mkTok 6 ")" 20 24 false; mkTok 12 "char[" 21 0 false; mkTok 30 "0123456789" 21 6 false; mkTok 13 "]" 21 17 false; mkTok 42 "a1" 21 19 false; mkTok 5 "@calculatedFrom(" 21 22 false; mkTok 31 """a\""b""" 21 39 false; mkTok 6 ")" 21 45 false; mkTok 40 "," 21 47 false; mkTok 36 "repeat" 22 0 false; mkTok 42 "msg_type" 22 7 false; mkTok 2 "{" 22 17 false; mkTok 44 "// `tick` ""quote"" 'q'" 22 19 true; mkTok 36 "repeat" 23 0 false; mkTok 29 "f64" 23 7 false; mkTok 42 "Packet" 23 11 false; mkTok 43 "`a\`" 23 17 false; mkTok 40 "," 23 22 false; mkTok 27 "int64" 23 24 false; mkTok 42 "asx" 23 30 false; mkTok 5 "@calculatedFrom(" 23 33 false; mkTok 31 """{,}""" 23 50 false; mkTok 6 ")" 23 56 false; mkTok 43 (string_of_bytes [96; 195; 169; 96]%N) 23 57 false; mkTok 40 "," 23 62 false; mkTok 14 "zchar[" 23 63 false; mkTok 30 "3" 23 69 false; mkTok 13 "]" 23 72 false; mkTok 42 "metadata" 24 4 false; mkTok 40 "," 24 13 false; mkTok 14 "zchar[" 24 15 false; mkTok 30 "00" 25 0 false; mkTok 13 "]" 25 3 false; mkTok 42 "x_y_z" 25 5 false; mkTok 5 "@calculatedFrom(" 26 4 false; mkTok 31 """CRC32""" 26 21 false; mkTok 6 ")" 27 0 false; mkTok 40 "," 27 2 false; mkTok 3 "}" 27 4 false; mkTok 40 "," 27 5 false; mkTok 3 "}" 27 7 false; mkTok 35 "packet" 27 9 false; mkTok 42 "calculatedFrom" 27 16 false; mkTok 44 "// a // b" 27 31 true; mkTok 2 "{" 28 0 false; mkTok 38 "match" 28 2 false; mkTok 42 "calculatedFrom" 28 8 false; mkTok 17 "as" 28 23 false; mkTok 42 "BodyLength" 28 26 false; mkTok 2 "{" 28 36 false; mkTok 30 "65535" 28 38 false; mkTok 39 ":" 29 0 false; mkTok 42 "Foo" 29 2 false; mkTok 40 "," 29 6 false; mkTok 3 "}" 30 4 false; mkTok 40 "," 30 5 false; mkTok 38 "match" 30 7 false; mkTok 42 "int" 31 4 false; mkTok 17 "as" 31 8 false; mkTok 42 "falsey" 31 11 false; mkTok 2 "{" 31 18 false; mkTok 30 "42" 31 21 false; mkTok 39 ":" 31 24 false; mkTok 42 "body" 31 26 false; mkTok 40 "," 31 30 false; mkTok 18 "[" 31 32 false; mkTok 31 """abc""" 31 34 false; mkTok 44 (string_of_bytes [47; 47; 32; 240; 159; 152; 128; 32; 101; 109; 111; 106; 105]%N) 32 0 true; mkTok 44 (string_of_bytes [47; 47; 32; 230; 179; 168; 233; 135; 138]%N) 33 0 true; mkTok 40 "," 34 0 false; mkTok 31 """\n""" 35 4 false; mkTok 40 "," 35 9 false; mkTok 31 """abc""" 35 11 false; mkTok 40 "," 36 0 false; mkTok 31 (string_of_bytes [34; 230; 182; 136; 230; 129; 175; 34]%N) 36 1 false; mkTok 13 "]" 36 6 false; mkTok 39 ":" 36 7 false; mkTok 42 "stringy" 36 8 false; mkTok 44 "// `tick` ""quote"" 'q'" 37 4 true; mkTok 40 "," 38 4 false; mkTok 18 "[" 38 6 false; mkTok 30 "0123456789" 38 7 false; mkTok 40 "," 39 0 false; mkTok 31 """{,}""" 39 2 false; mkTok 40 "," 40 0 false; mkTok 30 "42" 41 0 false; mkTok 40 "," 42 4 false; mkTok 30 "1" 42 6 false; mkTok 13 "]" 43 0 false; mkTok 44 (string_of_bytes [47; 47; 32; 230; 179; 168; 233; 135; 138]%N) 43 1 true; mkTok 39 ":" 44 0 false; mkTok 42 "trueish" 44 2 false; mkTok 40 "," 44 10 false; mkTok 31 """`tick`""" 44 12 false; mkTok 39 ":" 44 21 false; mkTok 42 "metadata" 44 22 false; mkTok 40 "," 44 31 false; mkTok 18 "[" 44 34 false; mkTok 31 """1""" 44 36 false; mkTok 40 "," 44 40 false; mkTok 31 (string_of_bytes [34; 97; 9; 98; 34]%N) 44 42 false; mkTok 40 "," 44 48 false; mkTok 30 "42" 44 50 false; mkTok 13 "]" 45 0 false; mkTok 39 ":" 46 0 false; mkTok 42 "zchar" 46 2 false; mkTok 3 "}" 46 7 false; mkTok 40 "," 47 4 false; mkTok 36 "repeat" 47 5 false; mkTok 14 "zchar[" 47 12 false; mkTok 30 "4294967296" 47 20 false; mkTok 13 "]" 47 31 false; mkTok 42 "stringy" 47 32 false; mkTok 43 (string_of_bytes [96; 108; 105; 110; 101; 49; 10; 108; 105; 110; 101; 50; 96]%N) 47 40 false; mkTok 40 "," 49 0 false; mkTok 3 "}" 49 2 false; mkTok 1 "options" 49 4 false; mkTok 44 "// @lengthOf(" 49 12 true; mkTok 2 "{" 50 0 false; mkTok 42 "stringy" 50 1 false; mkTok 4 "=" 50 8 false; mkTok 44 "// packet A { u8 x, }" 50 10 true; mkTok 33 "' '" 51 0 false; mkTok 44 "/// triple" 51 3 true; mkTok 41 ";" 52 0 false; mkTok 3 "}" 52 2 false; mkTok 0 "<EOF>" 52 3 false] (mkPacket (mkPtok 34 "root" 1 0 0) (Some (mkPtok 3 "}" 52 2 188)) [(DPacket (mkPacketDef (mkSpan (mkPtok 34 "root" 1 0 0) (mkPtok 3 "}" 27 7 103)) (Some (mkPtok 34 "root" 1 0 0)) (mkPtok 35 "packet" 1 5 1) (mkPtok 42 "As" 1 12 2) (mkPtok 2 "{" 2 0 4) [(mkFieldWithAttr (mkSpan (mkPtok 5 "@calculatedFrom(" 3 4 5) (mkPtok 40 "," 5 8 13)) [(FACalculatedFrom (mkSpan (mkPtok 5 "@calculatedFrom(" 3 4 5) (mkPtok 6 ")" 3 27 7)) (mkCalculatedFrom (mkSpan (mkPtok 5 "@calculatedFrom(" 3 4 5) (mkPtok 6 ")" 3 27 7)) (mkPtok 5 "@calculatedFrom(" 3 4 5) (mkPtok 31 """{,}""" 3 21 6) (mkPtok 6 ")" 3 27 7)))] (MetaField (mkSpan (mkPtok 14 "zchar[" 3 28 8) (mkPtok 40 "," 5 8 13)) None (mkMetaDecl (mkSpan (mkPtok 14 "zchar[" 3 28 8) (mkPtok 40 "," 5 8 13)) (TyFixed (mkSpan (mkPtok 14 "zchar[" 3 28 8) (mkPtok 13 "]" 5 4 11)) (mkFixedString (mkSpan (mkPtok 14 "zchar[" 3 28 8) (mkPtok 13 "]" 5 4 11)) (mkPtok 14 "zchar[" 3 28 8) (mkPtok 30 "4294967296" 3 35 9) (mkPtok 13 "]" 5 4 11))) (mkPtok 42 "As" 5 5 12) None (mkPtok 40 "," 5 8 13)))); (mkFieldWithAttr (mkSpan (mkPtok 9 "@tag(" 5 9 14) (mkPtok 40 "," 18 1 54)) [(FATag (mkSpan (mkPtok 9 "@tag(" 5 9 14) (mkPtok 6 ")" 5 17 16)) (mkTagAttr (mkSpan (mkPtok 9 "@tag(" 5 9 14) (mkPtok 6 ")" 5 17 16)) (mkPtok 9 "@tag(" 5 9 14) (mkPtok 30 "7" 5 15 15) (mkPtok 6 ")" 5 17 16)))] (InerObjectField (mkSpan (mkPtok 36 "repeat" 5 19 17) (mkPtok 40 "," 18 1 54)) (Some (mkPtok 36 "repeat" 5 19 17)) (InerObjectDecl (mkSpan (mkPtok 42 "pack" 6 4 18) (mkPtok 3 "}" 18 0 53)) (mkPtok 42 "pack" 6 4 18) (mkPtok 2 "{" 7 4 19) [(InerObjectField (mkSpan (mkPtok 42 "body" 7 5 20) (mkPtok 40 "," 15 21 50)) None (InerObjectDecl (mkSpan (mkPtok 42 "body" 7 5 20) (mkPtok 3 "}" 15 19 49)) (mkPtok 42 "body" 7 5 20) (mkPtok 2 "{" 8 4 21) [(MetaField (mkSpan (mkPtok 14 "zchar[" 9 0 23) (mkPtok 40 "," 12 0 29)) None (mkMetaDecl (mkSpan (mkPtok 14 "zchar[" 9 0 23) (mkPtok 40 "," 12 0 29)) (TyFixed (mkSpan (mkPtok 14 "zchar[" 9 0 23) (mkPtok 13 "]" 11 0 26)) (mkFixedString (mkSpan (mkPtok 14 "zchar[" 9 0 23) (mkPtok 13 "]" 11 0 26)) (mkPtok 14 "zchar[" 9 0 23) (mkPtok 30 "65535" 10 0 24) (mkPtok 13 "]" 11 0 26))) (mkPtok 42 "MetaDataX" 11 2 27) (Some (mkPtok 43 "`doc`" 11 12 28)) (mkPtok 40 "," 12 0 29))); (LengthField (mkSpan (mkPtok 42 "string_" 12 2 30) (mkPtok 40 "," 13 9 35)) (mkLengthFieldDecl (mkSpan (mkPtok 42 "string_" 12 2 30) (mkPtok 40 "," 13 9 35)) None (mkPtok 42 "string_" 12 2 30) (mkLengthOf (mkSpan (mkPtok 7 "@lengthOf(" 12 10 31) (mkPtok 6 ")" 13 7 34)) (mkPtok 7 "@lengthOf(" 12 10 31) (mkPtok 42 "Logon" 13 0 33) (mkPtok 6 ")" 13 7 34)) None (mkPtok 40 "," 13 9 35))); (CheckSumField (mkSpan (mkPtok 27 "i64" 13 11 36) (mkPtok 40 "," 14 4 43)) (mkChecksumFieldDecl (mkSpan (mkPtok 27 "i64" 13 11 36) (mkPtok 40 "," 14 4 43)) (Some (TyBasic (mkSpan (mkPtok 27 "i64" 13 11 36) (mkPtok 27 "i64" 13 11 36)) (mkBasicType (mkSpan (mkPtok 27 "i64" 13 11 36) (mkPtok 27 "i64" 13 11 36)) (mkPtok 27 "i64" 13 11 36)))) (mkPtok 42 "MetaDataX" 13 15 37) (mkCalculatedFrom (mkSpan (mkPtok 5 "@calculatedFrom(" 13 24 38) (mkPtok 6 ")" 13 44 40)) (mkPtok 5 "@calculatedFrom(" 13 24 38) (mkPtok 31 """""" 13 41 39) (mkPtok 6 ")" 13 44 40)) (Some (mkPtok 43 "`a\`" 14 0 42)) (mkPtok 40 "," 14 4 43))); (MetaField (mkSpan (mkPtok 36 "repeat" 15 0 45) (mkPtok 40 "," 15 17 48)) (Some (mkPtok 36 "repeat" 15 0 45)) (mkMetaDecl (mkSpan (mkPtok 16 "char[]" 15 7 46) (mkPtok 40 "," 15 17 48)) (TyDynamic (mkSpan (mkPtok 16 "char[]" 15 7 46) (mkPtok 16 "char[]" 15 7 46)) (mkDynamicString (mkSpan (mkPtok 16 "char[]" 15 7 46) (mkPtok 16 "char[]" 15 7 46)) (mkPtok 16 "char[]" 15 7 46))) (mkPtok 42 "Foo" 15 14 47) None (mkPtok 40 "," 15 17 48)))] (mkPtok 3 "}" 15 19 49)) (mkPtok 40 "," 15 21 50))] (mkPtok 3 "}" 18 0 53)) (mkPtok 40 "," 18 1 54))); (mkFieldWithAttr (mkSpan (mkPtok 7 "@lengthOf(" 18 2 55) (mkPtok 40 "," 21 47 71)) [(FALengthOf (mkSpan (mkPtok 7 "@lengthOf(" 18 2 55) (mkPtok 6 ")" 19 4 57)) (mkLengthOf (mkSpan (mkPtok 7 "@lengthOf(" 18 2 55) (mkPtok 6 ")" 19 4 57)) (mkPtok 7 "@lengthOf(" 18 2 55) (mkPtok 42 "MetaDataX" 18 13 56) (mkPtok 6 ")" 19 4 57))); (FACalculatedFrom (mkSpan (mkPtok 5 "@calculatedFrom(" 19 6 58) (mkPtok 6 ")" 20 5 60)) (mkCalculatedFrom (mkSpan (mkPtok 5 "@calculatedFrom(" 19 6 58) (mkPtok 6 ")" 20 5 60)) (mkPtok 5 "@calculatedFrom(" 19 6 58) (mkPtok 31 """\n""" 20 0 59) (mkPtok 6 ")" 20 5 60))); (FALengthOf (mkSpan (mkPtok 7 "@lengthOf(" 20 7 61) (mkPtok 6 ")" 20 24 63)) (mkLengthOf (mkSpan (mkPtok 7 "@lengthOf(" 20 7 61) (mkPtok 6 ")" 20 24 63)) (mkPtok 7 "@lengthOf(" 20 7 61) (mkPtok 42 "float" 20 18 62) (mkPtok 6 ")" 20 24 63)))] (CheckSumField (mkSpan (mkPtok 12 "char[" 21 0 64) (mkPtok 40 "," 21 47 71)) (mkChecksumFieldDecl (mkSpan (mkPtok 12 "char[" 21 0 64) (mkPtok 40 "," 21 47 71)) (Some (TyFixed (mkSpan (mkPtok 12 "char[" 21 0 64) (mkPtok 13 "]" 21 17 66)) (mkFixedString (mkSpan (mkPtok 12 "char[" 21 0 64) (mkPtok 13 "]" 21 17 66)) (mkPtok 12 "char[" 21 0 64) (mkPtok 30 "0123456789" 21 6 65) (mkPtok 13 "]" 21 17 66)))) (mkPtok 42 "a1" 21 19 67) (mkCalculatedFrom (mkSpan (mkPtok 5 "@calculatedFrom(" 21 22 68) (mkPtok 6 ")" 21 45 70)) (mkPtok 5 "@calculatedFrom(" 21 22 68) (mkPtok 31 """a\""b""" 21 39 69) (mkPtok 6 ")" 21 45 70)) None (mkPtok 40 "," 21 47 71)))); (mkFieldWithAttr (mkSpan (mkPtok 36 "repeat" 22 0 72) (mkPtok 40 "," 27 5 102)) [] (InerObjectField (mkSpan (mkPtok 36 "repeat" 22 0 72) (mkPtok 40 "," 27 5 102)) (Some (mkPtok 36 "repeat" 22 0 72)) (InerObjectDecl (mkSpan (mkPtok 42 "msg_type" 22 7 73) (mkPtok 3 "}" 27 4 101)) (mkPtok 42 "msg_type" 22 7 73) (mkPtok 2 "{" 22 17 74) [(MetaField (mkSpan (mkPtok 36 "repeat" 23 0 76) (mkPtok 40 "," 23 22 80)) (Some (mkPtok 36 "repeat" 23 0 76)) (mkMetaDecl (mkSpan (mkPtok 29 "f64" 23 7 77) (mkPtok 40 "," 23 22 80)) (TyBasic (mkSpan (mkPtok 29 "f64" 23 7 77) (mkPtok 29 "f64" 23 7 77)) (mkBasicType (mkSpan (mkPtok 29 "f64" 23 7 77) (mkPtok 29 "f64" 23 7 77)) (mkPtok 29 "f64" 23 7 77))) (mkPtok 42 "Packet" 23 11 78) (Some (mkPtok 43 "`a\`" 23 17 79)) (mkPtok 40 "," 23 22 80))); (CheckSumField (mkSpan (mkPtok 27 "int64" 23 24 81) (mkPtok 40 "," 23 62 87)) (mkChecksumFieldDecl (mkSpan (mkPtok 27 "int64" 23 24 81) (mkPtok 40 "," 23 62 87)) (Some (TyBasic (mkSpan (mkPtok 27 "int64" 23 24 81) (mkPtok 27 "int64" 23 24 81)) (mkBasicType (mkSpan (mkPtok 27 "int64" 23 24 81) (mkPtok 27 "int64" 23 24 81)) (mkPtok 27 "int64" 23 24 81)))) (mkPtok 42 "asx" 23 30 82) (mkCalculatedFrom (mkSpan (mkPtok 5 "@calculatedFrom(" 23 33 83) (mkPtok 6 ")" 23 56 85)) (mkPtok 5 "@calculatedFrom(" 23 33 83) (mkPtok 31 """{,}""" 23 50 84) (mkPtok 6 ")" 23 56 85)) (Some (mkPtok 43 (string_of_bytes [96; 195; 169; 96]%N) 23 57 86)) (mkPtok 40 "," 23 62 87))); (MetaField (mkSpan (mkPtok 14 "zchar[" 23 63 88) (mkPtok 40 "," 24 13 92)) None (mkMetaDecl (mkSpan (mkPtok 14 "zchar[" 23 63 88) (mkPtok 40 "," 24 13 92)) (TyFixed (mkSpan (mkPtok 14 "zchar[" 23 63 88) (mkPtok 13 "]" 23 72 90)) (mkFixedString (mkSpan (mkPtok 14 "zchar[" 23 63 88) (mkPtok 13 "]" 23 72 90)) (mkPtok 14 "zchar[" 23 63 88) (mkPtok 30 "3" 23 69 89) (mkPtok 13 "]" 23 72 90))) (mkPtok 42 "metadata" 24 4 91) None (mkPtok 40 "," 24 13 92))); (CheckSumField (mkSpan (mkPtok 14 "zchar[" 24 15 93) (mkPtok 40 "," 27 2 100)) (mkChecksumFieldDecl (mkSpan (mkPtok 14 "zchar[" 24 15 93) (mkPtok 40 "," 27 2 100)) (Some (TyFixed (mkSpan (mkPtok 14 "zchar[" 24 15 93) (mkPtok 13 "]" 25 3 95)) (mkFixedString (mkSpan (mkPtok 14 "zchar[" 24 15 93) (mkPtok 13 "]" 25 3 95)) (mkPtok 14 "zchar[" 24 15 93) (mkPtok 30 "00" 25 0 94) (mkPtok 13 "]" 25 3 95)))) (mkPtok 42 "x_y_z" 25 5 96) (mkCalculatedFrom (mkSpan (mkPtok 5 "@calculatedFrom(" 26 4 97) (mkPtok 6 ")" 27 0 99)) (mkPtok 5 "@calculatedFrom(" 26 4 97) (mkPtok 31 """CRC32""" 26 21 98) (mkPtok 6 ")" 27 0 99)) None (mkPtok 40 "," 27 2 100)))] (mkPtok 3 "}" 27 4 101)) (mkPtok 40 "," 27 5 102)))] (mkPtok 3 "}" 27 7 103))); (DPacket (mkPacketDef (mkSpan (mkPtok 35 "packet" 27 9 104) (mkPtok 3 "}" 49 2 178)) None (mkPtok 35 "packet" 27 9 104) (mkPtok 42 "calculatedFrom" 27 16 105) (mkPtok 2 "{" 28 0 107) [(mkFieldWithAttr (mkSpan (mkPtok 38 "match" 28 2 108) (mkPtok 40 "," 30 5 118)) [] (MatchField (mkSpan (mkPtok 38 "match" 28 2 108) (mkPtok 40 "," 30 5 118)) (mkMatchFieldDecl (mkSpan (mkPtok 38 "match" 28 2 108) (mkPtok 3 "}" 30 4 117)) (mkPtok 38 "match" 28 2 108) (mkPtok 42 "calculatedFrom" 28 8 109) (mkPtok 17 "as" 28 23 110) (mkPtok 42 "BodyLength" 28 26 111) (mkPtok 2 "{" 28 36 112) [(mkMatchPair (mkSpan (mkPtok 30 "65535" 28 38 113) (mkPtok 40 "," 29 6 116)) (MKDigits (mkPtok 30 "65535" 28 38 113)) (mkPtok 39 ":" 29 0 114) (mkPtok 42 "Foo" 29 2 115) (Some (mkPtok 40 "," 29 6 116)))] (mkPtok 3 "}" 30 4 117)) (mkPtok 40 "," 30 5 118))); (mkFieldWithAttr (mkSpan (mkPtok 38 "match" 30 7 119) (mkPtok 40 "," 47 4 170)) [] (MatchField (mkSpan (mkPtok 38 "match" 30 7 119) (mkPtok 40 "," 47 4 170)) (mkMatchFieldDecl (mkSpan (mkPtok 38 "match" 30 7 119) (mkPtok 3 "}" 46 7 169)) (mkPtok 38 "match" 30 7 119) (mkPtok 42 "int" 31 4 120) (mkPtok 17 "as" 31 8 121) (mkPtok 42 "falsey" 31 11 122) (mkPtok 2 "{" 31 18 123) [(mkMatchPair (mkSpan (mkPtok 30 "42" 31 21 124) (mkPtok 40 "," 31 30 127)) (MKDigits (mkPtok 30 "42" 31 21 124)) (mkPtok 39 ":" 31 24 125) (mkPtok 42 "body" 31 26 126) (Some (mkPtok 40 "," 31 30 127))); (mkMatchPair (mkSpan (mkPtok 18 "[" 31 32 128) (mkPtok 40 "," 38 4 142)) (MKList (mkKeyList (mkSpan (mkPtok 18 "[" 31 32 128) (mkPtok 13 "]" 36 6 138)) (mkPtok 18 "[" 31 32 128) (mkPtok 31 """abc""" 31 34 129) [((mkPtok 40 "," 34 0 132), (mkPtok 31 """\n""" 35 4 133)); ((mkPtok 40 "," 35 9 134), (mkPtok 31 """abc""" 35 11 135)); ((mkPtok 40 "," 36 0 136), (mkPtok 31 (string_of_bytes [34; 230; 182; 136; 230; 129; 175; 34]%N) 36 1 137))] (mkPtok 13 "]" 36 6 138))) (mkPtok 39 ":" 36 7 139) (mkPtok 42 "stringy" 36 8 140) (Some (mkPtok 40 "," 38 4 142))); (mkMatchPair (mkSpan (mkPtok 18 "[" 38 6 143) (mkPtok 40 "," 44 10 155)) (MKList (mkKeyList (mkSpan (mkPtok 18 "[" 38 6 143) (mkPtok 13 "]" 43 0 151)) (mkPtok 18 "[" 38 6 143) (mkPtok 30 "0123456789" 38 7 144) [((mkPtok 40 "," 39 0 145), (mkPtok 31 """{,}""" 39 2 146)); ((mkPtok 40 "," 40 0 147), (mkPtok 30 "42" 41 0 148)); ((mkPtok 40 "," 42 4 149), (mkPtok 30 "1" 42 6 150))] (mkPtok 13 "]" 43 0 151))) (mkPtok 39 ":" 44 0 153) (mkPtok 42 "trueish" 44 2 154) (Some (mkPtok 40 "," 44 10 155))); (mkMatchPair (mkSpan (mkPtok 31 """`tick`""" 44 12 156) (mkPtok 40 "," 44 31 159)) (MKString (mkPtok 31 """`tick`""" 44 12 156)) (mkPtok 39 ":" 44 21 157) (mkPtok 42 "metadata" 44 22 158) (Some (mkPtok 40 "," 44 31 159))); (mkMatchPair (mkSpan (mkPtok 18 "[" 44 34 160) (mkPtok 42 "zchar" 46 2 168)) (MKList (mkKeyList (mkSpan (mkPtok 18 "[" 44 34 160) (mkPtok 13 "]" 45 0 166)) (mkPtok 18 "[" 44 34 160) (mkPtok 31 """1""" 44 36 161) [((mkPtok 40 "," 44 40 162), (mkPtok 31 (string_of_bytes [34; 97; 9; 98; 34]%N) 44 42 163)); ((mkPtok 40 "," 44 48 164), (mkPtok 30 "42" 44 50 165))] (mkPtok 13 "]" 45 0 166))) (mkPtok 39 ":" 46 0 167) (mkPtok 42 "zchar" 46 2 168) None)] (mkPtok 3 "}" 46 7 169)) (mkPtok 40 "," 47 4 170))); (mkFieldWithAttr (mkSpan (mkPtok 36 "repeat" 47 5 171) (mkPtok 40 "," 49 0 177)) [] (MetaField (mkSpan (mkPtok 36 "repeat" 47 5 171) (mkPtok 40 "," 49 0 177)) (Some (mkPtok 36 "repeat" 47 5 171)) (mkMetaDecl (mkSpan (mkPtok 14 "zchar[" 47 12 172) (mkPtok 40 "," 49 0 177)) (TyFixed (mkSpan (mkPtok 14 "zchar[" 47 12 172) (mkPtok 13 "]" 47 31 174)) (mkFixedString (mkSpan (mkPtok 14 "zchar[" 47 12 172) (mkPtok 13 "]" 47 31 174)) (mkPtok 14 "zchar[" 47 12 172) (mkPtok 30 "4294967296" 47 20 173) (mkPtok 13 "]" 47 31 174))) (mkPtok 42 "stringy" 47 32 175) (Some (mkPtok 43 (string_of_bytes [96; 108; 105; 110; 101; 49; 10; 108; 105; 110; 101; 50; 96]%N) 47 40 176)) (mkPtok 40 "," 49 0 177))))] (mkPtok 3 "}" 49 2 178))); (DOption (mkOptionDef (mkSpan (mkPtok 1 "options" 49 4 179) (mkPtok 3 "}" 52 2 188)) (mkPtok 1 "options" 49 4 179) (mkPtok 2 "{" 50 0 181) [(mkOptionDecl (mkSpan (mkPtok 42 "stringy" 50 1 182) (mkPtok 41 ";" 52 0 187)) (mkPtok 42 "stringy" 50 1 182) (mkPtok 4 "=" 50 8 183) (VPaddingChar (mkSpan (mkPtok 33 "' '" 51 0 185) (mkPtok 33 "' '" 51 0 185)) (mkPtok 33 "' '" 51 0 185)) (Some (mkPtok 41 ";" 52 0 187)))] (mkPtok 3 "}" 52 2 188)))])).
-Eval vm_compute in ("<<<M142>>>" ++ check (runes_of_ascii "MetaData
-options1
-    {
-    char[ 7 ] i8i8
-, zchar[ 65535
-] u128
-    , char[]  repeatCount
-,
-}
-")).
-Eval vm_compute in ("<<<M152>>>" ++ check (@nil rune)).
-Eval vm_compute in ("<<<M162>>>" ++ check (runes_of_ascii "packet T {
-    @lengthOf( MetaDataX )match
-    Packet as a1 { [ ""1""] : zchar ""{,}""
-    : _x ,} ,// @lengthOf(
-char[ 007 ]// a // b
-u128@lengthOf(
-zchar)
-// a // b
-// packet A { u8 x, }
-,string_ , @leftPad ( ' ')match MetaDataX as u128 { [ ""it's"" ,7 , 65535
-, 65535]	:  chars,""" ++ [28040; 24687]%N ++ runes_of_ascii """// c
-: u , 42 : zchar , }
-    , } options // `tick` ""quote"" 'q'
-{
-    matchKey =
-""a\""b""
-    }	MetaData
-    options1 { i16
-len , char[ 7
-] // packet A { u8 x, }
-crc ,u16 asx `say ""hi""` ,i64 zchar, } // " ++ [27880; 37322]%N)).
-Eval vm_compute in ("<<<M172>>>" ++ check (runes_of_ascii "packet x
-{ @lengthOf( x_y_z )
-BodyLength tag // c
-,}
-")).
-Eval vm_compute in ("<<<M182>>>" ++ check (runes_of_ascii "packet f32a
-{
-    repeat calculatedFrom u128//	t
-,
-    T @calculatedFrom( ""a\\"" ) `crlf
-line` ,
-string /// triple
-charz, @leftPad (
-    //x
-    ) repeat
-pack // a // b
-T
-    ,	}MetaData
-charz { } packet	i8i8{A
-x ,match A
-as
-leftPad { ""abc""	: msg_type , ""a	b""
-    //	t
+[ 007 , 7// a // b
+, ""x y"", 7, ""{,}"" ]: rootA ,
+    """ ++ [128512]%N ++ runes_of_ascii """
+    : packetx 0: i8i8
+, 4294967296 :
+zchar
+, 4294967296
     :
-    T }	,f64 i8i8
-    ,
-char charz`" ++ [233]%N ++ runes_of_ascii "`
-    // `tick` ""quote"" 'q'
-    ,} // " ++ [128512]%N ++ runes_of_ascii " emoji")).
-Eval vm_compute in ("<<<M192>>>" ++ check (runes_of_ascii "packet a1 {
-    char[ 0 ]
-len
-    `two words` , char[ 00 ]packetx ,} MetaData pack // a // b
-{	int64 a1 `crlf
-line` ,i64_  Foo,
-char[0123456789
+x, }
+, float32 uint8x
+// 50% %s
+// c
+, match string_ as packetx { """ ++ [128512]%N ++ runes_of_ascii """: stringy, ""\n""
+    : x
+,""""	:
+zchar , 1 : tag ,
+    3
+: Foo
+// trailing space 
+//x
+,
+[ 00]
+    :  leftPad , // a // b
+},  @calculatedFrom(""1"")
+uint64
+f32a,@calculatedFrom( ""// no comment"" ) char[
+00 ]	trueish	@calculatedFrom( ""a\""b""
+)`// not a comment`, repeatCount// 50% %s
+{
+char /// triple
+charz  ,
+float64 falsey	@lengthOf(
+    chars)  `doc`
+,
 // " ++ [128512]%N ++ runes_of_ascii " emoji
-// " ++ [27880; 37322]%N ++ runes_of_ascii "
-] x
-    `tab	here` ,
-    }
+//
+uint16 crc
+, int32 pack
+    `doc` ,
+}  , //x
+Foo
+    @calculatedFrom(// @lengthOf(
+""a\""b""
+)
+`
+`
+    // trailing space 
+    , zchar @lengthOf(
+body ) , }
 
 ")).
-Eval vm_compute in ("<<<M202>>>" ++ check (runes_of_ascii "packet i8i8// a // b
-{ a1`{ , }` ,
+Eval vm_compute in ("<<<M62>>>" ++ check (runes_of_ascii "
+options{ Z9_ =7 ;zchar=	f64  ; }
+")).
+Eval vm_compute in ("<<<T62>>>" ++ terms [mkTok 1 "options" 2 0 false; mkTok 2 "{" 2 7 false; mkTok 42 "Z9_" 2 9 false; mkTok 4 "=" 2 13 false; mkTok 30 "7" 2 14 false; mkTok 41 ";" 2 16 false; mkTok 42 "zchar" 2 17 false; mkTok 4 "=" 2 22 false; mkTok 29 "f64" 2 24 false; mkTok 41 ";" 2 29 false; mkTok 3 "}" 2 31 false; mkTok 0 "<EOF>" 3 0 false] (mkPacket (mkPtok 1 "options" 2 0 0) (Some (mkPtok 3 "}" 2 31 10)) [(DOption (mkOptionDef (mkSpan (mkPtok 1 "options" 2 0 0) (mkPtok 3 "}" 2 31 10)) (mkPtok 1 "options" 2 0 0) (mkPtok 2 "{" 2 7 1) [(mkOptionDecl (mkSpan (mkPtok 42 "Z9_" 2 9 2) (mkPtok 41 ";" 2 16 5)) (mkPtok 42 "Z9_" 2 9 2) (mkPtok 4 "=" 2 13 3) (VDigits (mkSpan (mkPtok 30 "7" 2 14 4) (mkPtok 30 "7" 2 14 4)) (mkPtok 30 "7" 2 14 4)) (Some (mkPtok 41 ";" 2 16 5))); (mkOptionDecl (mkSpan (mkPtok 42 "zchar" 2 17 6) (mkPtok 41 ";" 2 29 9)) (mkPtok 42 "zchar" 2 17 6) (mkPtok 4 "=" 2 22 7) (VType (mkSpan (mkPtok 29 "f64" 2 24 8) (mkPtok 29 "f64" 2 24 8)) (TyBasic (mkSpan (mkPtok 29 "f64" 2 24 8) (mkPtok 29 "f64" 2 24 8)) (mkBasicType (mkSpan (mkPtok 29 "f64" 2 24 8) (mkPtok 29 "f64" 2 24 8)) (mkPtok 29 "f64" 2 24 8)))) (Some (mkPtok 41 ";" 2 29 9)))] (mkPtok 3 "}" 2 31 10)))])).
+Eval vm_compute in ("<<<M72>>>" ++ check (runes_of_ascii "root
+    packet //
+repeatCount {
+    char[] crc `{ , }`
+    // `tick` ""quote"" 'q'
+    , T { i64_
 // a // b
-// " ++ [27880; 37322]%N ++ runes_of_ascii "
-} //x")).
-Eval vm_compute in ("<<<T202>>>" ++ terms [mkTok 35 "packet" 1 0 false; mkTok 42 "i8i8" 1 7 false; mkTok 44 "// a // b" 1 11 true; mkTok 2 "{" 2 0 false; mkTok 42 "a1" 2 2 false; mkTok 43 "`{ , }`" 2 4 false; mkTok 40 "," 2 12 false; mkTok 44 "// a // b" 3 0 true; mkTok 44 (string_of_bytes [47; 47; 32; 230; 179; 168; 233; 135; 138]%N) 4 0 true; mkTok 3 "}" 5 0 false; mkTok 44 "//x" 5 2 true; mkTok 0 "<EOF>" 5 5 false] (mkPacket (mkPtok 35 "packet" 1 0 0) (Some (mkPtok 3 "}" 5 0 9)) [(DPacket (mkPacketDef (mkSpan (mkPtok 35 "packet" 1 0 0) (mkPtok 3 "}" 5 0 9)) None (mkPtok 35 "packet" 1 0 0) (mkPtok 42 "i8i8" 1 7 1) (mkPtok 2 "{" 2 0 3) [(mkFieldWithAttr (mkSpan (mkPtok 42 "a1" 2 2 4) (mkPtok 40 "," 2 12 6)) [] (ObjectField (mkSpan (mkPtok 42 "a1" 2 2 4) (mkPtok 40 "," 2 12 6)) None (mkPtok 42 "a1" 2 2 4) None (Some (mkPtok 43 "`{ , }`" 2 4 5)) (mkPtok 40 "," 2 12 6)))] (mkPtok 3 "}" 5 0 9)))])).
-Eval vm_compute in ("<<<M212>>>" ++ check (@nil rune)).
-Eval vm_compute in ("<<<M222>>>" ++ check (runes_of_ascii "root packet repeatCount
-// c
-// " ++ [128512]%N ++ runes_of_ascii " emoji
-{
-msg_type// `tick` ""quote"" 'q'
-{
-float64 lengthOf
-`" ++ [233]%N ++ runes_of_ascii "`,
-}
-    ,  }")).
-Eval vm_compute in ("<<<M232>>>" ++ check (runes_of_ascii "
-root packet // a // b
-matchKey
-    { @calculatedFrom(
-""// no comment"")match matchKey as crc { 65535:metadata , 255 :options1 , ""{,}"" :asx
-,
-    [ ""\" ++ [233]%N ++ runes_of_ascii """ , 00
-,	""""  , /// triple
-""{,}"" ,
-""a\\"" ]
-    : msg_type , 007: f32a ,//x
-} , @lengthOf(
-repeatCount) @leftPad ()
-    @calculatedFrom(  ""a\\"")float ,@tag( 42 ) u8 crc @calculatedFrom( //
-""" ++ [28040; 24687]%N ++ runes_of_ascii """// " ++ [27880; 37322]%N ++ runes_of_ascii "
-)
-, uint64
-BodyLength @lengthOf( f32a)
-    `" ++ [28040; 24687; 31867; 22411]%N ++ runes_of_ascii "` , tag a1 ,
-tag @calculatedFrom( ""`tick`""
-), } // trailing space ")).
-Eval vm_compute in ("<<<M242>>>" ++ check (runes_of_ascii "
-options { }
-")).
-Eval vm_compute in ("<<<M252>>>" ++ check (runes_of_ascii "// c
-root packet
-calculatedFrom { }
-")).
-Eval vm_compute in ("<<<M262>>>" ++ check (runes_of_ascii "packet u  { Header {
-float64	Foo@lengthOf( Pad
-    ) `{ , }`,	leftPad @calculatedFrom(""a	b"" )
-    ,msg_type {
-Z9_	@lengthOf(
-    u8x ) ,
-    falsey , len @lengthOf( float // " ++ [27880; 37322]%N ++ runes_of_ascii "
-) `it's`
-    , repeat int64
-options1	`a\` , } , // trailing space 
-} ,
-//	t
-// " ++ [128512]%N ++ runes_of_ascii " emoji
-falsey// `tick` ""quote"" 'q'
-u8x , zchar[  1 ]
-x `` ,
-    @lengthOf( uint8x
-) crc
-    @lengthOf(matchKey )  , repeat f32 string_
-// `tick` ""quote"" 'q'
-//
-,packetx,
+/// triple
+asx
+, } ,
     // " ++ [27880; 37322]%N ++ runes_of_ascii "
-    u8x
-    { f64
-Header , repeat uint8 uint8x , x_y_z
-{  match string_
-// " ++ [27880; 37322]%N ++ runes_of_ascii "
-//	t
-as a1 { [// `tick` ""quote"" 'q'
-255
-]  : f32a// @lengthOf(
-, [
-""packet""  ,""1"" , 00 ,
-    """ ++ [128512]%N ++ runes_of_ascii """,  4294967296 , 4294967296]:Logon , } , pack @lengthOf( options1 ), zchar[  1 ] crc ``,}	, } , rootA zchar ,}
-options { uint8x
-= 4294967296
-// " ++ [27880; 37322]%N ++ runes_of_ascii "
-// @lengthOf(
-tag // `tick` ""quote"" 'q'
-=
-float32 ; o = true ; // trailing space 
-rootA =
-    // @lengthOf(
-    ""packet"" ; } //x
-packet float
-    {
-    } // " ++ [27880; 37322]%N ++ runes_of_ascii "
-options	{ // " ++ [27880; 37322]%N ++ runes_of_ascii "
-msg_type// c
-= i16 ;
-    trueish = zchar[ 1 ] ; Logon =
-    ""abc"" rootA = i16 ; } MetaData rootA
-{
-}
+    @leftPad('0' ) char[
+    /// triple
+    00
+    ]
+    a1
+    @lengthOf( Logon
+)
+    // c
+    `it's` ,
+    @tag( 00 )	@calculatedFrom(	""" ++ [233]%N ++ runes_of_ascii "t" ++ [233]%N ++ runes_of_ascii """ )
+int32 x ,} root packet tag {}
 ")).
-Eval vm_compute in ("<<<M272>>>" ++ check (runes_of_ascii "root packet pack { match MetaDataX as Packet { 7: trueish , /// triple
-""" ++ [233]%N ++ runes_of_ascii "t" ++ [233]%N ++ runes_of_ascii """: MetaDataX
-,4294967296
-:msg_type  65535 : metadata ,3: x_y_z 42 :
-//
-/// triple
-_x// trailing space 
-,}	, } packet x_y_z
-    {repeat crc	metadata,match A as u8x  { [""it's"" ,""\" ++ [233]%N ++ runes_of_ascii """ ,
-0123456789  , ""1"" ,""abc""
-,""// no comment"", 4294967296 ]
-: pack ,007 : tag , } , } packet
-// c
-//x
-repeatCount  { @lengthOf(stringy )
-uint8 f32a , }options
-{
-BodyLength
-    =  '\x00' ; body
-    = ' ' ; } packet
-    charz { repeat Z9_ rootA `two words` , //
-@calculatedFrom( ""a\\""  ) f32a @lengthOf( msg_type
-    )	`say ""hi""` ,int8 As , string	stringy
-@lengthOf(options1 )
-`crlf
-line`,	i8 i8i8
-, f32a options1,
-@leftPad(
-    '\x00' )
-u
-    @calculatedFrom( """ ++ [128512]%N ++ runes_of_ascii """
-) ,
-@calculatedFrom(
-""\" ++ [233]%N ++ runes_of_ascii """ ) @tag(  00 ) @tag(
-0)
-int64 trueish@calculatedFrom(""`tick`"" // trailing space 
-)
-, @leftPad (
-' ' )
-    zchar@lengthOf( Z9_ )
-,} // " ++ [27880; 37322]%N)).
-Eval vm_compute in ("<<<T272>>>" ++ terms [mkTok 34 "root" 1 0 false; mkTok 35 "packet" 1 5 false; mkTok 42 "pack" 1 12 false; mkTok 2 "{" 1 17 false; mkTok 38 "match" 1 19 false; mkTok 42 "MetaDataX" 1 25 false; mkTok 17 "as" 1 35 false; mkTok 42 "Packet" 1 38 false; mkTok 2 "{" 1 45 false; mkTok 30 "7" 1 47 false; mkTok 39 ":" 1 48 false; mkTok 42 "trueish" 1 50 false; mkTok 40 "," 1 58 false; mkTok 44 "/// triple" 1 60 true; mkTok 31 (string_of_bytes [34; 195; 169; 116; 195; 169; 34]%N) 2 0 false; mkTok 39 ":" 2 5 false; mkTok 42 "MetaDataX" 2 7 false; mkTok 40 "," 3 0 false; mkTok 30 "4294967296" 3 1 false; mkTok 39 ":" 4 0 false; mkTok 42 "msg_type" 4 1 false; mkTok 30 "65535" 4 11 false; mkTok 39 ":" 4 17 false; mkTok 42 "metadata" 4 19 false; mkTok 40 "," 4 28 false; mkTok 30 "3" 4 29 false; mkTok 39 ":" 4 30 false; mkTok 42 "x_y_z" 4 32 false; mkTok 30 "42" 4 38 false; mkTok 39 ":" 4 41 false; mkTok 44 "//" 5 0 true; mkTok 44 "/// triple" 6 0 true; mkTok 42 "_x" 7 0 false; mkTok 44 "// trailing space " 7 2 true; mkTok 40 "," 8 0 false; mkTok 3 "}" 8 1 false; mkTok 40 "," 8 3 false; mkTok 3 "}" 8 5 false; mkTok 35 "packet" 8 7 false; mkTok 42 "x_y_z" 8 14 false; mkTok 2 "{" 9 4 false; mkTok 36 "repeat" 9 5 false; mkTok 42 "crc" 9 12 false; mkTok 42 "metadata" 9 16 false; mkTok 40 "," 9 24 false; mkTok 38 "match" 9 25 false; mkTok 42 "A" 9 31 false; mkTok 17 "as" 9 33 false; mkTok 42 "u8x" 9 36 false; mkTok 2 "{" 9 41 false; mkTok 18 "[" 9 43 false; mkTok 31 """it's""" 9 44 false; mkTok 40 "," 9 51 false; mkTok 31 (string_of_bytes [34; 92; 195; 169; 34]%N) 9 52 false; mkTok 40 "," 9 57 false; mkTok 30 "0123456789" 10 0 false; mkTok 40 "," 10 12 false; mkTok 31 """1""" 10 14 false; mkTok 40 "," 10 18 false; mkTok 31 """abc""" 10 19 false; mkTok 40 "," 11 0 false; mkTok 31 """// no comment""" 11 1 false; mkTok 40 "," 11 16 false; mkTok 30 "4294967296" 11 18 false; mkTok 13 "]" 11 29 false; mkTok 39 ":" 12 0 false; mkTok 42 "pack" 12 2 false; mkTok 40 "," 12 7 false; mkTok 30 "007" 12 8 false; mkTok 39 ":" 12 12 false; mkTok 42 "tag" 12 14 false; mkTok 40 "," 12 18 false; mkTok 3 "}" 12 20 false; mkTok 40 "," 12 22 false; mkTok 3 "}" 12 24 false; mkTok 35 "packet" 12 26 false; mkTok 44 "// c" 13 0 true; mkTok 44 "//x" 14 0 true; mkTok 42 "repeatCount" 15 0 false; mkTok 2 "{" 15 13 false; mkTok 7 "@lengthOf(" 15 15 false; mkTok 42 "stringy" 15 25 false; mkTok 6 ")" 15 33 false; mkTok 20 "uint8" 16 0 false; mkTok 42 "f32a" 16 6 false; mkTok 40 "," 16 11 false; mkTok 3 "}" 16 13 false; mkTok 1 "options" 16 14 false; mkTok 2 "{" 17 0 false; mkTok 42 "BodyLength" 18 0 false; mkTok 4 "=" 19 4 false; mkTok 33 "'\x00'" 19 7 false; mkTok 41 ";" 19 14 false; mkTok 42 "body" 19 16 false; mkTok 4 "=" 20 4 false; mkTok 33 "' '" 20 6 false; mkTok 41 ";" 20 10 false; mkTok 3 "}" 20 12 false; mkTok 35 "packet" 20 14 false; mkTok 42 "charz" 21 4 false; mkTok 2 "{" 21 10 false; mkTok 36 "repeat" 21 12 false; mkTok 42 "Z9_" 21 19 false; mkTok 42 "rootA" 21 23 false; mkTok 43 "`two words`" 21 29 false; mkTok 40 "," 21 41 false; mkTok 44 "//" 21 43 true; mkTok 5 "@calculatedFrom(" 22 0 false; mkTok 31 """a\\""" 22 17 false; mkTok 6 ")" 22 24 false; mkTok 42 "f32a" 22 26 false; mkTok 7 "@lengthOf(" 22 31 false; mkTok 42 "msg_type" 22 42 false; mkTok 6 ")" 23 4 false; mkTok 43 "`say ""hi""`" 23 6 false; mkTok 40 "," 23 17 false; mkTok 24 "int8" 23 18 false; mkTok 42 "As" 23 23 false; mkTok 40 "," 23 26 false; mkTok 15 "string" 23 28 false; mkTok 42 "stringy" 23 35 false; mkTok 7 "@lengthOf(" 24 0 false; mkTok 42 "options1" 24 10 false; mkTok 6 ")" 24 19 false; mkTok 43 (string_of_bytes [96; 99; 114; 108; 102; 13; 10; 108; 105; 110; 101; 96]%N) 25 0 false; mkTok 40 "," 26 5 false; mkTok 24 "i8" 26 7 false; mkTok 42 "i8i8" 26 10 false; mkTok 40 "," 27 0 false; mkTok 42 "f32a" 27 2 false; mkTok 42 "options1" 27 7 false; mkTok 40 "," 27 15 false; mkTok 32 "@leftPad" 28 0 false; mkTok 8 "(" 28 8 false; mkTok 33 "'\x00'" 29 4 false; mkTok 6 ")" 29 11 false; mkTok 42 "u" 30 0 false; mkTok 5 "@calculatedFrom(" 31 4 false; mkTok 31 (string_of_bytes [34; 240; 159; 152; 128; 34]%N) 31 21 false; mkTok 6 ")" 32 0 false; mkTok 40 "," 32 2 false; mkTok 5 "@calculatedFrom(" 33 0 false; mkTok 31 (string_of_bytes [34; 92; 195; 169; 34]%N) 34 0 false; mkTok 6 ")" 34 5 false; mkTok 9 "@tag(" 34 7 false; mkTok 30 "00" 34 14 false; mkTok 6 ")" 34 17 false; mkTok 9 "@tag(" 34 19 false; mkTok 30 "0" 35 0 false; mkTok 6 ")" 35 1 false; mkTok 27 "int64" 36 0 false; mkTok 42 "trueish" 36 6 false; mkTok 5 "@calculatedFrom(" 36 13 false; mkTok 31 """`tick`""" 36 29 false; mkTok 44 "// trailing space " 36 38 true; mkTok 6 ")" 37 0 false; mkTok 40 "," 38 0 false; mkTok 32 "@leftPad" 38 2 false; mkTok 8 "(" 38 11 false; mkTok 33 "' '" 39 0 false; mkTok 6 ")" 39 4 false; mkTok 42 "zchar" 40 4 false; mkTok 7 "@lengthOf(" 40 9 false; mkTok 42 "Z9_" 40 20 false; mkTok 6 ")" 40 24 false; mkTok 40 "," 41 0 false; mkTok 3 "}" 41 1 false; mkTok 44 (string_of_bytes [47; 47; 32; 230; 179; 168; 233; 135; 138]%N) 41 3 true; mkTok 0 "<EOF>" 41 8 false] (mkPacket (mkPtok 34 "root" 1 0 0) (Some (mkPtok 3 "}" 41 1 166)) [(DPacket (mkPacketDef (mkSpan (mkPtok 34 "root" 1 0 0) (mkPtok 3 "}" 8 5 37)) (Some (mkPtok 34 "root" 1 0 0)) (mkPtok 35 "packet" 1 5 1) (mkPtok 42 "pack" 1 12 2) (mkPtok 2 "{" 1 17 3) [(mkFieldWithAttr (mkSpan (mkPtok 38 "match" 1 19 4) (mkPtok 40 "," 8 3 36)) [] (MatchField (mkSpan (mkPtok 38 "match" 1 19 4) (mkPtok 40 "," 8 3 36)) (mkMatchFieldDecl (mkSpan (mkPtok 38 "match" 1 19 4) (mkPtok 3 "}" 8 1 35)) (mkPtok 38 "match" 1 19 4) (mkPtok 42 "MetaDataX" 1 25 5) (mkPtok 17 "as" 1 35 6) (mkPtok 42 "Packet" 1 38 7) (mkPtok 2 "{" 1 45 8) [(mkMatchPair (mkSpan (mkPtok 30 "7" 1 47 9) (mkPtok 40 "," 1 58 12)) (MKDigits (mkPtok 30 "7" 1 47 9)) (mkPtok 39 ":" 1 48 10) (mkPtok 42 "trueish" 1 50 11) (Some (mkPtok 40 "," 1 58 12))); (mkMatchPair (mkSpan (mkPtok 31 (string_of_bytes [34; 195; 169; 116; 195; 169; 34]%N) 2 0 14) (mkPtok 40 "," 3 0 17)) (MKString (mkPtok 31 (string_of_bytes [34; 195; 169; 116; 195; 169; 34]%N) 2 0 14)) (mkPtok 39 ":" 2 5 15) (mkPtok 42 "MetaDataX" 2 7 16) (Some (mkPtok 40 "," 3 0 17))); (mkMatchPair (mkSpan (mkPtok 30 "4294967296" 3 1 18) (mkPtok 42 "msg_type" 4 1 20)) (MKDigits (mkPtok 30 "4294967296" 3 1 18)) (mkPtok 39 ":" 4 0 19) (mkPtok 42 "msg_type" 4 1 20) None); (mkMatchPair (mkSpan (mkPtok 30 "65535" 4 11 21) (mkPtok 40 "," 4 28 24)) (MKDigits (mkPtok 30 "65535" 4 11 21)) (mkPtok 39 ":" 4 17 22) (mkPtok 42 "metadata" 4 19 23) (Some (mkPtok 40 "," 4 28 24))); (mkMatchPair (mkSpan (mkPtok 30 "3" 4 29 25) (mkPtok 42 "x_y_z" 4 32 27)) (MKDigits (mkPtok 30 "3" 4 29 25)) (mkPtok 39 ":" 4 30 26) (mkPtok 42 "x_y_z" 4 32 27) None); (mkMatchPair (mkSpan (mkPtok 30 "42" 4 38 28) (mkPtok 40 "," 8 0 34)) (MKDigits (mkPtok 30 "42" 4 38 28)) (mkPtok 39 ":" 4 41 29) (mkPtok 42 "_x" 7 0 32) (Some (mkPtok 40 "," 8 0 34)))] (mkPtok 3 "}" 8 1 35)) (mkPtok 40 "," 8 3 36)))] (mkPtok 3 "}" 8 5 37))); (DPacket (mkPacketDef (mkSpan (mkPtok 35 "packet" 8 7 38) (mkPtok 3 "}" 12 24 74)) None (mkPtok 35 "packet" 8 7 38) (mkPtok 42 "x_y_z" 8 14 39) (mkPtok 2 "{" 9 4 40) [(mkFieldWithAttr (mkSpan (mkPtok 36 "repeat" 9 5 41) (mkPtok 40 "," 9 24 44)) [] (ObjectField (mkSpan (mkPtok 36 "repeat" 9 5 41) (mkPtok 40 "," 9 24 44)) (Some (mkPtok 36 "repeat" 9 5 41)) (mkPtok 42 "crc" 9 12 42) (Some (mkPtok 42 "metadata" 9 16 43)) None (mkPtok 40 "," 9 24 44))); (mkFieldWithAttr (mkSpan (mkPtok 38 "match" 9 25 45) (mkPtok 40 "," 12 22 73)) [] (MatchField (mkSpan (mkPtok 38 "match" 9 25 45) (mkPtok 40 "," 12 22 73)) (mkMatchFieldDecl (mkSpan (mkPtok 38 "match" 9 25 45) (mkPtok 3 "}" 12 20 72)) (mkPtok 38 "match" 9 25 45) (mkPtok 42 "A" 9 31 46) (mkPtok 17 "as" 9 33 47) (mkPtok 42 "u8x" 9 36 48) (mkPtok 2 "{" 9 41 49) [(mkMatchPair (mkSpan (mkPtok 18 "[" 9 43 50) (mkPtok 40 "," 12 7 67)) (MKList (mkKeyList (mkSpan (mkPtok 18 "[" 9 43 50) (mkPtok 13 "]" 11 29 64)) (mkPtok 18 "[" 9 43 50) (mkPtok 31 """it's""" 9 44 51) [((mkPtok 40 "," 9 51 52), (mkPtok 31 (string_of_bytes [34; 92; 195; 169; 34]%N) 9 52 53)); ((mkPtok 40 "," 9 57 54), (mkPtok 30 "0123456789" 10 0 55)); ((mkPtok 40 "," 10 12 56), (mkPtok 31 """1""" 10 14 57)); ((mkPtok 40 "," 10 18 58), (mkPtok 31 """abc""" 10 19 59)); ((mkPtok 40 "," 11 0 60), (mkPtok 31 """// no comment""" 11 1 61)); ((mkPtok 40 "," 11 16 62), (mkPtok 30 "4294967296" 11 18 63))] (mkPtok 13 "]" 11 29 64))) (mkPtok 39 ":" 12 0 65) (mkPtok 42 "pack" 12 2 66) (Some (mkPtok 40 "," 12 7 67))); (mkMatchPair (mkSpan (mkPtok 30 "007" 12 8 68) (mkPtok 40 "," 12 18 71)) (MKDigits (mkPtok 30 "007" 12 8 68)) (mkPtok 39 ":" 12 12 69) (mkPtok 42 "tag" 12 14 70) (Some (mkPtok 40 "," 12 18 71)))] (mkPtok 3 "}" 12 20 72)) (mkPtok 40 "," 12 22 73)))] (mkPtok 3 "}" 12 24 74))); (DPacket (mkPacketDef (mkSpan (mkPtok 35 "packet" 12 26 75) (mkPtok 3 "}" 16 13 86)) None (mkPtok 35 "packet" 12 26 75) (mkPtok 42 "repeatCount" 15 0 78) (mkPtok 2 "{" 15 13 79) [(mkFieldWithAttr (mkSpan (mkPtok 7 "@lengthOf(" 15 15 80) (mkPtok 40 "," 16 11 85)) [(FALengthOf (mkSpan (mkPtok 7 "@lengthOf(" 15 15 80) (mkPtok 6 ")" 15 33 82)) (mkLengthOf (mkSpan (mkPtok 7 "@lengthOf(" 15 15 80) (mkPtok 6 ")" 15 33 82)) (mkPtok 7 "@lengthOf(" 15 15 80) (mkPtok 42 "stringy" 15 25 81) (mkPtok 6 ")" 15 33 82)))] (MetaField (mkSpan (mkPtok 20 "uint8" 16 0 83) (mkPtok 40 "," 16 11 85)) None (mkMetaDecl (mkSpan (mkPtok 20 "uint8" 16 0 83) (mkPtok 40 "," 16 11 85)) (TyBasic (mkSpan (mkPtok 20 "uint8" 16 0 83) (mkPtok 20 "uint8" 16 0 83)) (mkBasicType (mkSpan (mkPtok 20 "uint8" 16 0 83) (mkPtok 20 "uint8" 16 0 83)) (mkPtok 20 "uint8" 16 0 83))) (mkPtok 42 "f32a" 16 6 84) None (mkPtok 40 "," 16 11 85))))] (mkPtok 3 "}" 16 13 86))); (DOption (mkOptionDef (mkSpan (mkPtok 1 "options" 16 14 87) (mkPtok 3 "}" 20 12 97)) (mkPtok 1 "options" 16 14 87) (mkPtok 2 "{" 17 0 88) [(mkOptionDecl (mkSpan (mkPtok 42 "BodyLength" 18 0 89) (mkPtok 41 ";" 19 14 92)) (mkPtok 42 "BodyLength" 18 0 89) (mkPtok 4 "=" 19 4 90) (VPaddingChar (mkSpan (mkPtok 33 "'\x00'" 19 7 91) (mkPtok 33 "'\x00'" 19 7 91)) (mkPtok 33 "'\x00'" 19 7 91)) (Some (mkPtok 41 ";" 19 14 92))); (mkOptionDecl (mkSpan (mkPtok 42 "body" 19 16 93) (mkPtok 41 ";" 20 10 96)) (mkPtok 42 "body" 19 16 93) (mkPtok 4 "=" 20 4 94) (VPaddingChar (mkSpan (mkPtok 33 "' '" 20 6 95) (mkPtok 33 "' '" 20 6 95)) (mkPtok 33 "' '" 20 6 95)) (Some (mkPtok 41 ";" 20 10 96)))] (mkPtok 3 "}" 20 12 97))); (DPacket (mkPacketDef (mkSpan (mkPtok 35 "packet" 20 14 98) (mkPtok 3 "}" 41 1 166)) None (mkPtok 35 "packet" 20 14 98) (mkPtok 42 "charz" 21 4 99) (mkPtok 2 "{" 21 10 100) [(mkFieldWithAttr (mkSpan (mkPtok 36 "repeat" 21 12 101) (mkPtok 40 "," 21 41 105)) [] (ObjectField (mkSpan (mkPtok 36 "repeat" 21 12 101) (mkPtok 40 "," 21 41 105)) (Some (mkPtok 36 "repeat" 21 12 101)) (mkPtok 42 "Z9_" 21 19 102) (Some (mkPtok 42 "rootA" 21 23 103)) (Some (mkPtok 43 "`two words`" 21 29 104)) (mkPtok 40 "," 21 41 105))); (mkFieldWithAttr (mkSpan (mkPtok 5 "@calculatedFrom(" 22 0 107) (mkPtok 40 "," 23 17 115)) [(FACalculatedFrom (mkSpan (mkPtok 5 "@calculatedFrom(" 22 0 107) (mkPtok 6 ")" 22 24 109)) (mkCalculatedFrom (mkSpan (mkPtok 5 "@calculatedFrom(" 22 0 107) (mkPtok 6 ")" 22 24 109)) (mkPtok 5 "@calculatedFrom(" 22 0 107) (mkPtok 31 """a\\""" 22 17 108) (mkPtok 6 ")" 22 24 109)))] (LengthField (mkSpan (mkPtok 42 "f32a" 22 26 110) (mkPtok 40 "," 23 17 115)) (mkLengthFieldDecl (mkSpan (mkPtok 42 "f32a" 22 26 110) (mkPtok 40 "," 23 17 115)) None (mkPtok 42 "f32a" 22 26 110) (mkLengthOf (mkSpan (mkPtok 7 "@lengthOf(" 22 31 111) (mkPtok 6 ")" 23 4 113)) (mkPtok 7 "@lengthOf(" 22 31 111) (mkPtok 42 "msg_type" 22 42 112) (mkPtok 6 ")" 23 4 113)) (Some (mkPtok 43 "`say ""hi""`" 23 6 114)) (mkPtok 40 "," 23 17 115)))); (mkFieldWithAttr (mkSpan (mkPtok 24 "int8" 23 18 116) (mkPtok 40 "," 23 26 118)) [] (MetaField (mkSpan (mkPtok 24 "int8" 23 18 116) (mkPtok 40 "," 23 26 118)) None (mkMetaDecl (mkSpan (mkPtok 24 "int8" 23 18 116) (mkPtok 40 "," 23 26 118)) (TyBasic (mkSpan (mkPtok 24 "int8" 23 18 116) (mkPtok 24 "int8" 23 18 116)) (mkBasicType (mkSpan (mkPtok 24 "int8" 23 18 116) (mkPtok 24 "int8" 23 18 116)) (mkPtok 24 "int8" 23 18 116))) (mkPtok 42 "As" 23 23 117) None (mkPtok 40 "," 23 26 118)))); (mkFieldWithAttr (mkSpan (mkPtok 15 "string" 23 28 119) (mkPtok 40 "," 26 5 125)) [] (LengthField (mkSpan (mkPtok 15 "string" 23 28 119) (mkPtok 40 "," 26 5 125)) (mkLengthFieldDecl (mkSpan (mkPtok 15 "string" 23 28 119) (mkPtok 40 "," 26 5 125)) (Some (TyDynamic (mkSpan (mkPtok 15 "string" 23 28 119) (mkPtok 15 "string" 23 28 119)) (mkDynamicString (mkSpan (mkPtok 15 "string" 23 28 119) (mkPtok 15 "string" 23 28 119)) (mkPtok 15 "string" 23 28 119)))) (mkPtok 42 "stringy" 23 35 120) (mkLengthOf (mkSpan (mkPtok 7 "@lengthOf(" 24 0 121) (mkPtok 6 ")" 24 19 123)) (mkPtok 7 "@lengthOf(" 24 0 121) (mkPtok 42 "options1" 24 10 122) (mkPtok 6 ")" 24 19 123)) (Some (mkPtok 43 (string_of_bytes [96; 99; 114; 108; 102; 13; 10; 108; 105; 110; 101; 96]%N) 25 0 124)) (mkPtok 40 "," 26 5 125)))); (mkFieldWithAttr (mkSpan (mkPtok 24 "i8" 26 7 126) (mkPtok 40 "," 27 0 128)) [] (MetaField (mkSpan (mkPtok 24 "i8" 26 7 126) (mkPtok 40 "," 27 0 128)) None (mkMetaDecl (mkSpan (mkPtok 24 "i8" 26 7 126) (mkPtok 40 "," 27 0 128)) (TyBasic (mkSpan (mkPtok 24 "i8" 26 7 126) (mkPtok 24 "i8" 26 7 126)) (mkBasicType (mkSpan (mkPtok 24 "i8" 26 7 126) (mkPtok 24 "i8" 26 7 126)) (mkPtok 24 "i8" 26 7 126))) (mkPtok 42 "i8i8" 26 10 127) None (mkPtok 40 "," 27 0 128)))); (mkFieldWithAttr (mkSpan (mkPtok 42 "f32a" 27 2 129) (mkPtok 40 "," 27 15 131)) [] (ObjectField (mkSpan (mkPtok 42 "f32a" 27 2 129) (mkPtok 40 "," 27 15 131)) None (mkPtok 42 "f32a" 27 2 129) (Some (mkPtok 42 "options1" 27 7 130)) None (mkPtok 40 "," 27 15 131))); (mkFieldWithAttr (mkSpan (mkPtok 32 "@leftPad" 28 0 132) (mkPtok 40 "," 32 2 140)) [(FAPadding (mkSpan (mkPtok 32 "@leftPad" 28 0 132) (mkPtok 6 ")" 29 11 135)) (mkPaddingAttr (mkSpan (mkPtok 32 "@leftPad" 28 0 132) (mkPtok 6 ")" 29 11 135)) (mkPtok 32 "@leftPad" 28 0 132) (mkPtok 8 "(" 28 8 133) (Some (mkPtok 33 "'\x00'" 29 4 134)) (mkPtok 6 ")" 29 11 135)))] (CheckSumField (mkSpan (mkPtok 42 "u" 30 0 136) (mkPtok 40 "," 32 2 140)) (mkChecksumFieldDecl (mkSpan (mkPtok 42 "u" 30 0 136) (mkPtok 40 "," 32 2 140)) None (mkPtok 42 "u" 30 0 136) (mkCalculatedFrom (mkSpan (mkPtok 5 "@calculatedFrom(" 31 4 137) (mkPtok 6 ")" 32 0 139)) (mkPtok 5 "@calculatedFrom(" 31 4 137) (mkPtok 31 (string_of_bytes [34; 240; 159; 152; 128; 34]%N) 31 21 138) (mkPtok 6 ")" 32 0 139)) None (mkPtok 40 "," 32 2 140)))); (mkFieldWithAttr (mkSpan (mkPtok 5 "@calculatedFrom(" 33 0 141) (mkPtok 40 "," 38 0 156)) [(FACalculatedFrom (mkSpan (mkPtok 5 "@calculatedFrom(" 33 0 141) (mkPtok 6 ")" 34 5 143)) (mkCalculatedFrom (mkSpan (mkPtok 5 "@calculatedFrom(" 33 0 141) (mkPtok 6 ")" 34 5 143)) (mkPtok 5 "@calculatedFrom(" 33 0 141) (mkPtok 31 (string_of_bytes [34; 92; 195; 169; 34]%N) 34 0 142) (mkPtok 6 ")" 34 5 143))); (FATag (mkSpan (mkPtok 9 "@tag(" 34 7 144) (mkPtok 6 ")" 34 17 146)) (mkTagAttr (mkSpan (mkPtok 9 "@tag(" 34 7 144) (mkPtok 6 ")" 34 17 146)) (mkPtok 9 "@tag(" 34 7 144) (mkPtok 30 "00" 34 14 145) (mkPtok 6 ")" 34 17 146))); (FATag (mkSpan (mkPtok 9 "@tag(" 34 19 147) (mkPtok 6 ")" 35 1 149)) (mkTagAttr (mkSpan (mkPtok 9 "@tag(" 34 19 147) (mkPtok 6 ")" 35 1 149)) (mkPtok 9 "@tag(" 34 19 147) (mkPtok 30 "0" 35 0 148) (mkPtok 6 ")" 35 1 149)))] (CheckSumField (mkSpan (mkPtok 27 "int64" 36 0 150) (mkPtok 40 "," 38 0 156)) (mkChecksumFieldDecl (mkSpan (mkPtok 27 "int64" 36 0 150) (mkPtok 40 "," 38 0 156)) (Some (TyBasic (mkSpan (mkPtok 27 "int64" 36 0 150) (mkPtok 27 "int64" 36 0 150)) (mkBasicType (mkSpan (mkPtok 27 "int64" 36 0 150) (mkPtok 27 "int64" 36 0 150)) (mkPtok 27 "int64" 36 0 150)))) (mkPtok 42 "trueish" 36 6 151) (mkCalculatedFrom (mkSpan (mkPtok 5 "@calculatedFrom(" 36 13 152) (mkPtok 6 ")" 37 0 155)) (mkPtok 5 "@calculatedFrom(" 36 13 152) (mkPtok 31 """`tick`""" 36 29 153) (mkPtok 6 ")" 37 0 155)) None (mkPtok 40 "," 38 0 156)))); (mkFieldWithAttr (mkSpan (mkPtok 32 "@leftPad" 38 2 157) (mkPtok 40 "," 41 0 165)) [(FAPadding (mkSpan (mkPtok 32 "@leftPad" 38 2 157) (mkPtok 6 ")" 39 4 160)) (mkPaddingAttr (mkSpan (mkPtok 32 "@leftPad" 38 2 157) (mkPtok 6 ")" 39 4 160)) (mkPtok 32 "@leftPad" 38 2 157) (mkPtok 8 "(" 38 11 158) (Some (mkPtok 33 "' '" 39 0 159)) (mkPtok 6 ")" 39 4 160)))] (LengthField (mkSpan (mkPtok 42 "zchar" 40 4 161) (mkPtok 40 "," 41 0 165)) (mkLengthFieldDecl (mkSpan (mkPtok 42 "zchar" 40 4 161) (mkPtok 40 "," 41 0 165)) None (mkPtok 42 "zchar" 40 4 161) (mkLengthOf (mkSpan (mkPtok 7 "@lengthOf(" 40 9 162) (mkPtok 6 ")" 40 24 164)) (mkPtok 7 "@lengthOf(" 40 9 162) (mkPtok 42 "Z9_" 40 20 163) (mkPtok 6 ")" 40 24 164)) None (mkPtok 40 "," 41 0 165))))] (mkPtok 3 "}" 41 1 166)))])).
-Eval vm_compute in ("<<<M282>>>" ++ check (runes_of_ascii "MetaData _x{ } packet calculatedFrom {
-}MetaData
-_x	{i32
+Eval vm_compute in ("<<<M82>>>" ++ check (runes_of_ascii "
+packet Logon  {
+match o
+as x_y_z {// `tick` ""quote"" 'q'
+""x y""
+    /// triple
+    : matchKey , ""\n"" :
+pack """ ++ [128512]%N ++ runes_of_ascii """ :	int[ """ ++ [128512]%N ++ runes_of_ascii """ //	t
+,
+""// no comment""
+] :  x }// @lengthOf(
+,} // c")).
+Eval vm_compute in ("<<<M92>>>" ++ check (runes_of_ascii "MetaData rootA
+    {}
+options{ rootA= '\x00' zchar
+    ='0' rootA= float64 ;  trueish	= 3 i64_
+= float64 ; } options{
     body
-    , uint8 x , }")).
-Eval vm_compute in ("<<<M292>>>" ++ check (runes_of_ascii "MetaData f32a { uint8
-/// triple
-//x
-x ,
-f64 As
-`" ++ [233]%N ++ runes_of_ascii "`
-    // packet A { u8 x, }
-    , i64 f32a `u8 x,`  , uint32 // " ++ [128512]%N ++ runes_of_ascii " emoji
-string_ `crlf
-line` , char[ 10] pack
-    `a\` /// triple
-,Packet lengthOf	,}
-    root
-packet
-    MetaDataX { i32	u8x`tab	here` ,
-char[] stringy @lengthOf( repeatCount
-    ) `crlf
-line` , @rightPad ( )@lengthOf( Foo  ) char[
-65535	] body  , repeat pack{
-rootA `it's`
-    , match msg_type as  x_y_z {
-1:
-i64_ , 0123456789
-:Logon
-    , [ ""CRC32""]
+= '0'
+    ;T= ""CRC32"";matchKey = char[] ; }	packet
+rootA {
+    // " ++ [128512]%N ++ runes_of_ascii " emoji
+    @lengthOf( //
+Z9_)
+    @rightPad('0' ) Packet calculatedFrom , }packet
+body
+    { match metadata
+as asx {
+    3 : Header 3: packetx	, [  10]
+:	Packet, """"
+// 50% %s
+// " ++ [27880; 37322]%N ++ runes_of_ascii "
 :
-A 1
-: _x , // a // b
-[ 42
-    // a // b
-    ] //
-:// @lengthOf(
-repeatCount , ""a	b""
-: pack
-    ,
-},
-char[
-    4294967296]lengthOf @lengthOf( options1//x
-), } , @tag( 4294967296 ) // " ++ [128512]%N ++ runes_of_ascii " emoji
-@calculatedFrom( //x
-""" ++ [128512]%N ++ runes_of_ascii """ )
-// " ++ [128512]%N ++ runes_of_ascii " emoji
-// " ++ [27880; 37322]%N ++ runes_of_ascii "
-repeat string	u, @lengthOf( // @lengthOf(
-f32a	) @tag(
-    007 ) @tag(
-7  ) msg_type Pad  , }
-    MetaData roots
-    { u64 MetaDataX
-,}
-packet // " ++ [27880; 37322]%N ++ runes_of_ascii "
-roots
-{
-@tag(
-    255 )
-    char[
-0123456789
-]  Logon`" ++ [28040; 24687; 31867; 22411]%N ++ runes_of_ascii "`
-    ,
-    body // packet A { u8 x, }
-@lengthOf( // a // b
-u8x) `two words`
-// " ++ [27880; 37322]%N ++ runes_of_ascii "
+pack
+//x
+// packet A { u8 x, }
+, 10  : // `tick` ""quote"" 'q'
+pack // `tick` ""quote"" 'q'
+[
+    255 , // a // b
+"""",00 ,
+""it's"" ] :
+x }
+// c
 /// triple
-, @lengthOf( Z9_
-)
-    packetx @calculatedFrom( """ ++ [28040; 24687]%N ++ runes_of_ascii """ )// " ++ [27880; 37322]%N ++ runes_of_ascii "
 ,
     }
+")).
+Eval vm_compute in ("<<<M102>>>" ++ check (runes_of_ascii "
+ 	 ")).
+Eval vm_compute in ("<<<M112>>>" ++ check (runes_of_ascii "// 50% %s
+packet leftPad	{ } packet Packet
+{
+@lengthOf(	chars  ) repeat u128 u8x`" ++ [233]%N ++ runes_of_ascii "`
+, }
+")).
+Eval vm_compute in ("<<<M122>>>" ++ check (runes_of_ascii "// @lengthOf(
+packet
+trueish { Pad { float @lengthOf( // " ++ [128512]%N ++ runes_of_ascii " emoji
+uint8x
+    // a // b
+    ), float32 x_y_z @calculatedFrom( ""a\\""
+// c
+// " ++ [128512]%N ++ runes_of_ascii " emoji
+), }
+,
+uint8
+matchKey ,
+    @leftPad ( ) _x
+    @lengthOf( o ) `{ , }` ,roots  { u64 stringy // packet A { u8 x, }
+`two words` , repeat
+// `tick` ""quote"" 'q'
+// c
+i8 lengthOf`doc` ,
+    } // trailing space 
+,pack	`" ++ [233]%N ++ runes_of_ascii "`  , packetx
+// " ++ [128512]%N ++ runes_of_ascii " emoji
+// trailing space 
+pack , repeat packetx
+{falsey  @lengthOf(
+    _x //	t
+)
+,}
+    , u128@calculatedFrom( ""CRC32""
+    // @lengthOf(
+    ) ,@tag(
+    0123456789)rootA //
+@lengthOf( Pad
+)
+, // `tick` ""quote"" 'q'
+}  packet Foo// 50% %s
+{  @lengthOf(
+    options1// `tick` ""quote"" 'q'
+)	repeatCount packetx  , }options { T =255
+leftPad =
+' ';roots=  ""\n""; } packet asx
+//x
+/// triple
+{ f32a {float32 falsey ,
+}, @leftPad ( '\x00' )
+    uint16 MetaDataX `crlf
+line`
+    ,  repeat
+    string options1, repeat i32
+    leftPad /// triple
+`// not a comment` , repeat string // c
+stringy `100% of %d`
+,
+repeat chars  {
+string
+MetaDataX`100% of %d`, f64 leftPad `crlf
+line` , }	,
+char[]
+    //	t
+    metadata//x
+,@tag( 10
+    // trailing space 
+    ) char[] Pad`tab	here` ,
+match matchKey as o	{ ""{,}"" : MetaDataX	, [
+7 , ""\" ++ [233]%N ++ runes_of_ascii """  ,
+3
+    ,
+""abc""
+,10
+] :
+stringy  ,""\" ++ [233]%N ++ runes_of_ascii """ :  zchar ,
+[
+    /// triple
+    00 ,
+// " ++ [128512]%N ++ runes_of_ascii " emoji
+// trailing space 
+3 ] :charz
+,
+    ""a\\"":msg_type , } , }")).
+Eval vm_compute in ("<<<M132>>>" ++ check (runes_of_ascii "
+options
+    { falsey = '0'
+} options {i8i8=u16
+    ; roots = zchar[
+65535 ] ; roots // @lengthOf(
+= ""abc"" } //
+MetaData asx{ f32a u8x
+`it's` , float32 // @lengthOf(
+falsey , options1 lengthOf`// not a comment`
+,
+// trailing space 
+// packet A { u8 x, }
+}
+")).
+Eval vm_compute in ("<<<T132>>>" ++ terms [mkTok 1 "options" 2 0 false; mkTok 2 "{" 3 4 false; mkTok 42 "falsey" 3 6 false; mkTok 4 "=" 3 13 false; mkTok 33 "'0'" 3 15 false; mkTok 3 "}" 4 0 false; mkTok 1 "options" 4 2 false; mkTok 2 "{" 4 10 false; mkTok 42 "i8i8" 4 11 false; mkTok 4 "=" 4 15 false; mkTok 21 "u16" 4 16 false; mkTok 41 ";" 5 4 false; mkTok 42 "roots" 5 6 false; mkTok 4 "=" 5 12 false; mkTok 14 "zchar[" 5 14 false; mkTok 30 "65535" 6 0 false; mkTok 13 "]" 6 6 false; mkTok 41 ";" 6 8 false; mkTok 42 "roots" 6 10 false; mkTok 44 "// @lengthOf(" 6 16 true; mkTok 4 "=" 7 0 false; mkTok 31 """abc""" 7 2 false; mkTok 3 "}" 7 8 false; mkTok 44 "//" 7 10 true; mkTok 37 "MetaData" 8 0 false; mkTok 42 "asx" 8 9 false; mkTok 2 "{" 8 12 false; mkTok 42 "f32a" 8 14 false; mkTok 42 "u8x" 8 19 false; mkTok 43 "`it's`" 9 0 false; mkTok 40 "," 9 7 false; mkTok 28 "float32" 9 9 false; mkTok 44 "// @lengthOf(" 9 17 true; mkTok 42 "falsey" 10 0 false; mkTok 40 "," 10 7 false; mkTok 42 "options1" 10 9 false; mkTok 42 "lengthOf" 10 18 false; mkTok 43 "`// not a comment`" 10 26 false; mkTok 40 "," 11 0 false; mkTok 44 "// trailing space " 12 0 true; mkTok 44 "// packet A { u8 x, }" 13 0 true; mkTok 3 "}" 14 0 false; mkTok 0 "<EOF>" 15 0 false] (mkPacket (mkPtok 1 "options" 2 0 0) (Some (mkPtok 3 "}" 14 0 41)) [(DOption (mkOptionDef (mkSpan (mkPtok 1 "options" 2 0 0) (mkPtok 3 "}" 4 0 5)) (mkPtok 1 "options" 2 0 0) (mkPtok 2 "{" 3 4 1) [(mkOptionDecl (mkSpan (mkPtok 42 "falsey" 3 6 2) (mkPtok 33 "'0'" 3 15 4)) (mkPtok 42 "falsey" 3 6 2) (mkPtok 4 "=" 3 13 3) (VPaddingChar (mkSpan (mkPtok 33 "'0'" 3 15 4) (mkPtok 33 "'0'" 3 15 4)) (mkPtok 33 "'0'" 3 15 4)) None)] (mkPtok 3 "}" 4 0 5))); (DOption (mkOptionDef (mkSpan (mkPtok 1 "options" 4 2 6) (mkPtok 3 "}" 7 8 22)) (mkPtok 1 "options" 4 2 6) (mkPtok 2 "{" 4 10 7) [(mkOptionDecl (mkSpan (mkPtok 42 "i8i8" 4 11 8) (mkPtok 41 ";" 5 4 11)) (mkPtok 42 "i8i8" 4 11 8) (mkPtok 4 "=" 4 15 9) (VType (mkSpan (mkPtok 21 "u16" 4 16 10) (mkPtok 21 "u16" 4 16 10)) (TyBasic (mkSpan (mkPtok 21 "u16" 4 16 10) (mkPtok 21 "u16" 4 16 10)) (mkBasicType (mkSpan (mkPtok 21 "u16" 4 16 10) (mkPtok 21 "u16" 4 16 10)) (mkPtok 21 "u16" 4 16 10)))) (Some (mkPtok 41 ";" 5 4 11))); (mkOptionDecl (mkSpan (mkPtok 42 "roots" 5 6 12) (mkPtok 41 ";" 6 8 17)) (mkPtok 42 "roots" 5 6 12) (mkPtok 4 "=" 5 12 13) (VType (mkSpan (mkPtok 14 "zchar[" 5 14 14) (mkPtok 13 "]" 6 6 16)) (TyFixed (mkSpan (mkPtok 14 "zchar[" 5 14 14) (mkPtok 13 "]" 6 6 16)) (mkFixedString (mkSpan (mkPtok 14 "zchar[" 5 14 14) (mkPtok 13 "]" 6 6 16)) (mkPtok 14 "zchar[" 5 14 14) (mkPtok 30 "65535" 6 0 15) (mkPtok 13 "]" 6 6 16)))) (Some (mkPtok 41 ";" 6 8 17))); (mkOptionDecl (mkSpan (mkPtok 42 "roots" 6 10 18) (mkPtok 31 """abc""" 7 2 21)) (mkPtok 42 "roots" 6 10 18) (mkPtok 4 "=" 7 0 20) (VString (mkSpan (mkPtok 31 """abc""" 7 2 21) (mkPtok 31 """abc""" 7 2 21)) (mkPtok 31 """abc""" 7 2 21)) None)] (mkPtok 3 "}" 7 8 22))); (DMeta (mkMetaDef (mkSpan (mkPtok 37 "MetaData" 8 0 24) (mkPtok 3 "}" 14 0 41)) (mkPtok 37 "MetaData" 8 0 24) (mkPtok 42 "asx" 8 9 25) (mkPtok 2 "{" 8 12 26) [(MIRef (mkRefMetaDecl (mkSpan (mkPtok 42 "f32a" 8 14 27) (mkPtok 40 "," 9 7 30)) (mkPtok 42 "f32a" 8 14 27) (mkPtok 42 "u8x" 8 19 28) (Some (mkPtok 43 "`it's`" 9 0 29)) (mkPtok 40 "," 9 7 30))); (MIDecl (mkMetaDecl (mkSpan (mkPtok 28 "float32" 9 9 31) (mkPtok 40 "," 10 7 34)) (TyBasic (mkSpan (mkPtok 28 "float32" 9 9 31) (mkPtok 28 "float32" 9 9 31)) (mkBasicType (mkSpan (mkPtok 28 "float32" 9 9 31) (mkPtok 28 "float32" 9 9 31)) (mkPtok 28 "float32" 9 9 31))) (mkPtok 42 "falsey" 10 0 33) None (mkPtok 40 "," 10 7 34))); (MIRef (mkRefMetaDecl (mkSpan (mkPtok 42 "options1" 10 9 35) (mkPtok 40 "," 11 0 38)) (mkPtok 42 "options1" 10 9 35) (mkPtok 42 "lengthOf" 10 18 36) (Some (mkPtok 43 "`// not a comment`" 10 26 37)) (mkPtok 40 "," 11 0 38)))] (mkPtok 3 "}" 14 0 41)))])).
+Eval vm_compute in ("<<<M142>>>" ++ check (runes_of_ascii "packet
+//
+// " ++ [128512]%N ++ runes_of_ascii " emoji
+asx{ @leftPad ('\x00' )@calculatedFrom( ""{,}"" ) //
+pack
+// " ++ [128512]%N ++ runes_of_ascii " emoji
+// " ++ [128512]%N ++ runes_of_ascii " emoji
+x_y_z , Pad f32a//x
+,  repeat	zchar[/// triple
+42 /// triple
+]
+// packet A { u8 x, }
+// " ++ [128512]%N ++ runes_of_ascii " emoji
+chars `{ , }`
+, string packetx `
+`	,
+@tag( 10
+) metadata@calculatedFrom( ""x y"" )
+, uint8x //	t
+,repeat int16
+    // `tick` ""quote"" 'q'
+    pack `a\`
+    , float64 rootA// c
+,
+    /// triple
+    } packet
+// trailing space 
+// a // b
+asx//	t
+{ string_,	}root
+packet Header {
+float64 x_y_z
+    // packet A { u8 x, }
+    @calculatedFrom( ""x y""
+),
+//
+//x
+@calculatedFrom(
+""a\""b""
+) @calculatedFrom( // a // b
+""a\""b"" )
+int { zchar[ 255 ]
+    msg_type, i64_	{ stringy @lengthOf( x_y_z ) // " ++ [27880; 37322]%N ++ runes_of_ascii "
+, u
+options1`" ++ [233]%N ++ runes_of_ascii "`, repeat	f32 msg_type , float32 // trailing space 
+Foo  `two words`
+,	} , }// 50% %s
+,	uint8 asx `line1
+line2` , } MetaData
+lengthOf { char[] o `line1
+line2`
+,
+}
+")).
+Eval vm_compute in ("<<<M152>>>" ++ check (runes_of_ascii "root packet  i64_ { uint8x
+`tab	here` ,  }
+MetaData// " ++ [27880; 37322]%N ++ runes_of_ascii "
+zchar{ falsey lengthOf  ,
+// a // b
+// @lengthOf(
+i64 asx
+`a\` , } packet
+    _x{ @tag(
+    // " ++ [27880; 37322]%N ++ runes_of_ascii "
+    007 )repeat
+f64 string_ `" ++ [28040; 24687; 31867; 22411]%N ++ runes_of_ascii "` ,
+int64 charz,
+    // trailing space 
+    match a1  as Pad {
+    7:trueish, 0 : i64_
+, 65535: calculatedFrom
+,
+1
+: chars
+,  4294967296: u
+,
+    42:f32a , } // trailing space 
+,	i32 string_@calculatedFrom( """ ++ [28040; 24687]%N ++ runes_of_ascii """ ) ,
+    @lengthOf( matchKey ) repeat asx trueish , string
+zchar
+, uint16
+    Z9_
+, }  MetaData len /// triple
+{T// 50% %s
+stringy // " ++ [27880; 37322]%N ++ runes_of_ascii "
+`100% of %d`
+    , As string_ ,Header MetaDataX,  stringy x // packet A { u8 x, }
+, int chars ,
+} packet pack {  @lengthOf(
+    T
+    ) @leftPad
+    ( ) A @lengthOf(
+    roots)
+    `doc` ,  @lengthOf( body
+    )
+repeat
+    zchar { char[ 42 ] o,
+match uint8x as MetaDataX
+{ 7
+    :
+// 50% %s
+//x
+chars , 4294967296 : Pad ,[ 42 , 007
+    ] : u128} ,// @lengthOf(
+uint16 charz ,// a // b
+},
+@leftPad(
+// a // b
+// packet A { u8 x, }
+'0') repeat A , Logon@lengthOf(Packet) `say ""hi""` , trueish { chars @lengthOf(A ) ,
+repeat u64 chars	,  leftPad@calculatedFrom(""`tick`""// c
+) , asx , } , char[ 65535
+    ] falsey `a\` // `tick` ""quote"" 'q'
+,
+    @rightPad (
+'0'
+    )	int
+    { crc @lengthOf(
+crc ) `say ""hi""` ,
+options1 // packet A { u8 x, }
+packetx `" ++ [233]%N ++ runes_of_ascii "`,} , @rightPad( ' ') falsey
+    // 50% %s
+    @lengthOf(BodyLength ) ,}")).
+Eval vm_compute in ("<<<M162>>>" ++ check (runes_of_ascii "root packet
+a1 // " ++ [27880; 37322]%N ++ runes_of_ascii "
+{
+rootA int ,
+}  root packet
+f32a { u8 o @calculatedFrom( ""x y"" )`" ++ [28040; 24687; 31867; 22411]%N ++ runes_of_ascii "` , f64 body
+`{ , }`, @leftPad ( '\x00'
+) @leftPad (
+    ) @leftPad (	'0' ) int16 i8i8
+    , }
+")).
+Eval vm_compute in ("<<<M172>>>" ++ check (runes_of_ascii "// " ++ [128512]%N ++ runes_of_ascii " emoji
+root
+packet // packet A { u8 x, }
+T
+    // a // b
+    {
+int16  a1 ,
+tag {	u16 stringy , }
+    , MetaDataX crc ,i16 stringy @calculatedFrom(
+""x y"" ) , match
+int as
+BodyLength//
+{ 1 : Header
+,
+    [ 0 ] : tag """ ++ [28040; 24687]%N ++ runes_of_ascii """ :
+    asx,
+// " ++ [27880; 37322]%N ++ runes_of_ascii "
+// trailing space 
+},	@leftPad ( ' ' ) metadata
+// a // b
+// @lengthOf(
+`it's`
+,	len
+    @lengthOf( metadata), zchar[65535
+    ]
+A @lengthOf( //	t
+trueish
+    ) , } //")).
+Eval vm_compute in ("<<<M182>>>" ++ check (runes_of_ascii "
+
+")).
+Eval vm_compute in ("<<<M192>>>" ++ check (runes_of_ascii "root packet len { repeat
+zchar[
+    4294967296 // trailing space 
+] f32a , //
+x_y_z @lengthOf( trueish
+) // trailing space 
+`two words` ,
+    //
+    @rightPad ( ) @calculatedFrom( ""\" ++ [233]%N ++ runes_of_ascii """ // c
+)string
+chars	`say ""hi""` ,@rightPad( ' ') uint8 options1@calculatedFrom(
+""1""
+    )
+`say ""hi""` ,}
+")).
+Eval vm_compute in ("<<<M202>>>" ++ check (runes_of_ascii "
+")).
+Eval vm_compute in ("<<<T202>>>" ++ terms [mkTok 0 "<EOF>" 2 0 false] (mkPacket (mkPtok 0 "<EOF>" 2 0 0) None [])).
+Eval vm_compute in ("<<<M212>>>" ++ check (runes_of_ascii "packet pack// " ++ [27880; 37322]%N ++ runes_of_ascii "
+{ zchar[	007] chars
+, int {
+char[] asx `two words` , zchar[ 42]a1`crlf
+line`
+    , tag
+Packet, tag @lengthOf( i8i8 )	`crlf
+line`
+, } ,
+uint16 Packet`two words` ,	@calculatedFrom( ""abc"" ) @calculatedFrom(
+// c
+// " ++ [128512]%N ++ runes_of_ascii " emoji
+""" ++ [28040; 24687]%N ++ runes_of_ascii """
+)// `tick` ""quote"" 'q'
+@lengthOf(
+MetaDataX )
+char[7
+]
+    roots  @lengthOf(
+matchKey ) , }
+options { tag =  '0' packetx =""packet"";
+matchKey
+= char[ 3 ]
+;
+    MetaDataX = true
+    } root	packet	repeatCount { T
+@lengthOf(	int) // @lengthOf(
+, }
+")).
+Eval vm_compute in ("<<<M222>>>" ++ check (runes_of_ascii "packet rootA {
+    // a // b
+    } options {o
+= false ; asx
+=char[ 10 ] // `tick` ""quote"" 'q'
+}
+    options	{	}
+")).
+Eval vm_compute in ("<<<M232>>>" ++ check (runes_of_ascii "packet
+    zchar{ }
+")).
+Eval vm_compute in ("<<<M242>>>" ++ check (runes_of_ascii "options{roots
+=
+u8
+    // 50% %s
+    ; tag//
+= 42 ;
+    //	t
+    falsey = ""{,}""metadata
+// `tick` ""quote"" 'q'
+/// triple
+= ""abc"" ;
+    } packet pack
+    // trailing space 
+    {
+    @calculatedFrom(//	t
+""a	b"")zchar[255] len, // 50% %s
+} options { // trailing space 
+asx =	false ; options1 = ""packet""
+    ; trueish = char[] ;
+pack = '0'
+; }packet u128 // " ++ [27880; 37322]%N ++ runes_of_ascii "
+{ @tag(
+3 )
+zchar[
+    // `tick` ""quote"" 'q'
+    42 ]
+    Foo //	t
+@calculatedFrom( """"
+) ,  @leftPad// a // b
+(
+'\x00' // " ++ [128512]%N ++ runes_of_ascii " emoji
+)// trailing space 
+Logon { repeat char[]// " ++ [27880; 37322]%N ++ runes_of_ascii "
+x
+`100% of %d`
+    , } ,
+    } packet matchKey{
+match
+    crc as Packet {
+""1""
+    // `tick` ""quote"" 'q'
+    : packetx , }	,match	int as float	{ ""1""
+:metadata
+}, repeat float32 uint8x , string u `" ++ [233]%N ++ runes_of_ascii "` , @rightPad ( '0' )	Logon
+// `tick` ""quote"" 'q'
+/// triple
+,  float{
+    crc
+{
+u
+, uint64 Packet @calculatedFrom(
+""`tick`"" ) `
+`
+    , char[]	T `
+` ,},
+}  , @calculatedFrom( ""// no comment"") char[ 0123456789 ] x
+    `crlf
+line`
+, @leftPad(' ' ) @tag(
+1  ) @calculatedFrom( ""abc""
+)char[  65535 ]Header
+,
+    repeat	zchar[00 ]trueish // 50% %s
+`" ++ [28040; 24687; 31867; 22411]%N ++ runes_of_ascii "`, }")).
+Eval vm_compute in ("<<<M252>>>" ++ check (runes_of_ascii "MetaData _x{ }
+options{ //	t
+A
+    = """ ++ [28040; 24687]%N ++ runes_of_ascii """; }")).
+Eval vm_compute in ("<<<M262>>>" ++ check (runes_of_ascii "MetaData
+    u128
+{ u32 packetx, falsey tag ,
+    char[255 // a // b
+]
+leftPad ,	asx
+    metadata
+    `a\` , Foo Z9_,char[ 00
+] _x
+    `line1
+line2` ,} MetaData
+metadata { }")).
+Eval vm_compute in ("<<<M272>>>" ++ check (runes_of_ascii "root packet uint8x
+    {
+char[]pack  @calculatedFrom( ""`tick`"" ) ,
+    }")).
+Eval vm_compute in ("<<<T272>>>" ++ terms [mkTok 34 "root" 1 0 false; mkTok 35 "packet" 1 5 false; mkTok 42 "uint8x" 1 12 false; mkTok 2 "{" 2 4 false; mkTok 16 "char[]" 3 0 false; mkTok 42 "pack" 3 6 false; mkTok 5 "@calculatedFrom(" 3 12 false; mkTok 31 """`tick`""" 3 29 false; mkTok 6 ")" 3 38 false; mkTok 40 "," 3 40 false; mkTok 3 "}" 4 4 false; mkTok 0 "<EOF>" 4 5 false] (mkPacket (mkPtok 34 "root" 1 0 0) (Some (mkPtok 3 "}" 4 4 10)) [(DPacket (mkPacketDef (mkSpan (mkPtok 34 "root" 1 0 0) (mkPtok 3 "}" 4 4 10)) (Some (mkPtok 34 "root" 1 0 0)) (mkPtok 35 "packet" 1 5 1) (mkPtok 42 "uint8x" 1 12 2) (mkPtok 2 "{" 2 4 3) [(mkFieldWithAttr (mkSpan (mkPtok 16 "char[]" 3 0 4) (mkPtok 40 "," 3 40 9)) [] (CheckSumField (mkSpan (mkPtok 16 "char[]" 3 0 4) (mkPtok 40 "," 3 40 9)) (mkChecksumFieldDecl (mkSpan (mkPtok 16 "char[]" 3 0 4) (mkPtok 40 "," 3 40 9)) (Some (TyDynamic (mkSpan (mkPtok 16 "char[]" 3 0 4) (mkPtok 16 "char[]" 3 0 4)) (mkDynamicString (mkSpan (mkPtok 16 "char[]" 3 0 4) (mkPtok 16 "char[]" 3 0 4)) (mkPtok 16 "char[]" 3 0 4)))) (mkPtok 42 "pack" 3 6 5) (mkCalculatedFrom (mkSpan (mkPtok 5 "@calculatedFrom(" 3 12 6) (mkPtok 6 ")" 3 38 8)) (mkPtok 5 "@calculatedFrom(" 3 12 6) (mkPtok 31 """`tick`""" 3 29 7) (mkPtok 6 ")" 3 38 8)) None (mkPtok 40 "," 3 40 9))))] (mkPtok 3 "}" 4 4 10)))])).
+Eval vm_compute in ("<<<M282>>>" ++ check (runes_of_ascii "// `tick` ""quote"" 'q'
+MetaData calculatedFrom{ Pad
+zchar
+, }
+")).
+Eval vm_compute in ("<<<M292>>>" ++ check (runes_of_ascii "
 ")).
 Eval vm_compute in ("<<<M302>>>" ++ check (runes_of_ascii "options {
 	StringPrefixLenType = u16;
@@ -637,130 +694,276 @@ packet Detail {
 	string RuleName `" ++ [35268; 21017; 21517; 31216]%N ++ runes_of_ascii "`,
 	u16 Code `" ++ [21407; 22240; 20195; 30721]%N ++ runes_of_ascii "`,
 }")).
-Eval vm_compute in ("<<<M312>>>" ++ check (runes_of_ascii ")
-asx
-{ Z9_ Header// " ++ [128512]%N ++ runes_of_ascii " emoji
-,} packet pack
-    { }
+Eval vm_compute in ("<<<M312>>>" ++ check (runes_of_ascii "char
+crc	{ char[] Z9_`{ , }`,} options { tag =
+    false } packet
+// a // b
+// @lengthOf(
+Pad {Foo @calculatedFrom( // `tick` ""quote"" 'q'
+""a\\"" ) ,
+    trueish ,
+    char[ 00]
+    // " ++ [128512]%N ++ runes_of_ascii " emoji
+    packetx , }
 ")).
-Eval vm_compute in ("<<<M322>>>" ++ check (runes_of_ascii "packet
-asx
-@lengthOf( Z9_ Header// " ++ [128512]%N ++ runes_of_ascii " emoji
-,} packet pack
-    { }
+Eval vm_compute in ("<<<M322>>>" ++ check (runes_of_ascii "MetaData
+crc	' ' char[] Z9_`{ , }`,} options { tag =
+    false } packet
+// a // b
+// @lengthOf(
+Pad {Foo @calculatedFrom( // `tick` ""quote"" 'q'
+""a\\"" ) ,
+    trueish ,
+    char[ 00]
+    // " ++ [128512]%N ++ runes_of_ascii " emoji
+    packetx , }
 ")).
-Eval vm_compute in ("<<<M332>>>" ++ check (runes_of_ascii "packet
-asx
-{ Z9_ ]// " ++ [128512]%N ++ runes_of_ascii " emoji
-,} packet pack
-    { }
+Eval vm_compute in ("<<<M332>>>" ++ check (runes_of_ascii "MetaData
+crc	{ char[] uint16`{ , }`,} options { tag =
+    false } packet
+// a // b
+// @lengthOf(
+Pad {Foo @calculatedFrom( // `tick` ""quote"" 'q'
+""a\\"" ) ,
+    trueish ,
+    char[ 00]
+    // " ++ [128512]%N ++ runes_of_ascii " emoji
+    packetx , }
 ")).
-Eval vm_compute in ("<<<M342>>>" ++ check (runes_of_ascii "packet
-asx
-{ Z9_ Header// " ++ [128512]%N ++ runes_of_ascii " emoji
-,MetaData packet pack
-    { }
+Eval vm_compute in ("<<<M342>>>" ++ check (runes_of_ascii "MetaData
+crc	{ char[] Z9_`{ , }`u16} options { tag =
+    false } packet
+// a // b
+// @lengthOf(
+Pad {Foo @calculatedFrom( // `tick` ""quote"" 'q'
+""a\\"" ) ,
+    trueish ,
+    char[ 00]
+    // " ++ [128512]%N ++ runes_of_ascii " emoji
+    packetx , }
 ")).
-Eval vm_compute in ("<<<M352>>>" ++ check (runes_of_ascii "packet
-asx
-{ Z9_ Header// " ++ [128512]%N ++ runes_of_ascii " emoji
-,} packet true
-    { }
+Eval vm_compute in ("<<<M352>>>" ++ check (runes_of_ascii "MetaData
+crc	{ char[] Z9_`{ , }`,} i64 { tag =
+    false } packet
+// a // b
+// @lengthOf(
+Pad {Foo @calculatedFrom( // `tick` ""quote"" 'q'
+""a\\"" ) ,
+    trueish ,
+    char[ 00]
+    // " ++ [128512]%N ++ runes_of_ascii " emoji
+    packetx , }
 ")).
-Eval vm_compute in ("<<<M362>>>" ++ check (runes_of_ascii "packet
-asx
-{ Z9_ Header// " ++ [128512]%N ++ runes_of_ascii " emoji
-,} packet pack
-    {")).
-Eval vm_compute in ("<<<M372>>>" ++ check (runes_of_ascii "packet
-asx
-{ Z9_ Header// " ++ [128512]%N ++ runes_of_ascii " emoji
-,} packet '1'pack
-    { }
+Eval vm_compute in ("<<<M362>>>" ++ check (runes_of_ascii "MetaData
+crc	{ char[] Z9_`{ , }`,} options { `doc` =
+    false } packet
+// a // b
+// @lengthOf(
+Pad {Foo @calculatedFrom( // `tick` ""quote"" 'q'
+""a\\"" ) ,
+    trueish ,
+    char[ 00]
+    // " ++ [128512]%N ++ runes_of_ascii " emoji
+    packetx , }
 ")).
-Eval vm_compute in ("<<<M382>>>" ++ check (runes_of_ascii "packet
-asx
-{ Z9_ Header// " ++ [128512]%N ++ runes_of_ascii " emoji
-,} packet a" ++ [769]%N ++ runes_of_ascii "b
-    { }
+Eval vm_compute in ("<<<M372>>>" ++ check (runes_of_ascii "MetaData
+crc	{ char[] Z9_`{ , }`,} options { tag =
+    u8 } packet
+// a // b
+// @lengthOf(
+Pad {Foo @calculatedFrom( // `tick` ""quote"" 'q'
+""a\\"" ) ,
+    trueish ,
+    char[ 00]
+    // " ++ [128512]%N ++ runes_of_ascii " emoji
+    packetx , }
 ")).
-Eval vm_compute in ("<<<M392>>>" ++ check (runes_of_ascii "MetaData { o char[ // `tick` ""quote"" 'q'
-3] body, } packet o{
-u8
-charz ,
-    }")).
-Eval vm_compute in ("<<<M402>>>" ++ check (runes_of_ascii "MetaData o { 3 // `tick` ""quote"" 'q'
-char[ ] body, } packet o{
-u8
-charz ,
-    }")).
-Eval vm_compute in ("<<<M412>>>" ++ check (runes_of_ascii "MetaData o { char[ // `tick` ""quote"" 'q'
-3 body ], } packet o{
-u8
-charz ,
-    }")).
-Eval vm_compute in ("<<<M422>>>" ++ check (runes_of_ascii "MetaData o { char[ // `tick` ""quote"" 'q'
-3] body} , packet o{
-u8
-charz ,
-    }")).
-Eval vm_compute in ("<<<M432>>>" ++ check (runes_of_ascii "MetaData o { char[ // `tick` ""quote"" 'q'
-3] body, } o packet{
-u8
-charz ,
-    }")).
-Eval vm_compute in ("<<<M442>>>" ++ check (runes_of_ascii "MetaData o { char[ // `tick` ""quote"" 'q'
-3] body, } packet o u8
-{
-charz ,
-    }")).
-Eval vm_compute in ("<<<M452>>>" ++ check (runes_of_ascii "MetaData o { char[ // `tick` ""quote"" 'q'
-3] body, } packet o{
-u8
-, charz
-    }")).
-Eval vm_compute in ("<<<M462>>>" ++ check (runes_of_ascii "MetaData o { char[ // `tick` ""quote"" 'q'
-3] body, } packet o{
-u8
-charz ,
-    int64")).
-Eval vm_compute in ("<<<M472>>>" ++ check (runes_of_ascii "MetaData o { char[ // `tick` ""quo" ++ [0]%N ++ runes_of_ascii "te"" 'q'
-3] body, } packet o{
-u8
-charz ,
-    }")).
-Eval vm_compute in ("<<<M482>>>" ++ check (runes_of_ascii "MetaDat@xa o { char[ // `tick` ""quote"" 'q'
-3] body, } packet o{
-u8
-charz ,
-    }")).
-Eval vm_compute in ("<<<M492>>>" ++ check (runes_of_ascii "options { {calculatedFrom =	int8 ;}
-
+Eval vm_compute in ("<<<M382>>>" ++ check (runes_of_ascii "MetaData
+crc	{ char[] Z9_`{ , }`,} options { tag =
+    false } @tag(
+// a // b
+// @lengthOf(
+Pad {Foo @calculatedFrom( // `tick` ""quote"" 'q'
+""a\\"" ) ,
+    trueish ,
+    char[ 00]
+    // " ++ [128512]%N ++ runes_of_ascii " emoji
+    packetx , }
 ")).
-Eval vm_compute in ("<<<M502>>>" ++ check (runes_of_ascii "options {calculatedFrom = =	int8 ;}
-
+Eval vm_compute in ("<<<M392>>>" ++ check (runes_of_ascii "MetaData
+crc	{ char[] Z9_`{ , }`,} options { tag =
+    false } packet
+// a // b
+// @lengthOf(
+Pad @calculatedFrom(Foo @calculatedFrom( // `tick` ""quote"" 'q'
+""a\\"" ) ,
+    trueish ,
+    char[ 00]
+    // " ++ [128512]%N ++ runes_of_ascii " emoji
+    packetx , }
 ")).
-Eval vm_compute in ("<<<M512>>>" ++ check (runes_of_ascii "options {calculatedFrom =	int8 ; ;}
-
+Eval vm_compute in ("<<<M402>>>" ++ check (runes_of_ascii "MetaData
+crc	{ char[] Z9_`{ , }`,} options { tag =
+    false } packet
+// a // b
+// @lengthOf(
+Pad {Foo false // `tick` ""quote"" 'q'
+""a\\"" ) ,
+    trueish ,
+    char[ 00]
+    // " ++ [128512]%N ++ runes_of_ascii " emoji
+    packetx , }
 ")).
-Eval vm_compute in ("<<<M522>>>" ++ check (runes_of_ascii "options {calculate")).
-Eval vm_compute in ("<<<M532>>>" ++ check (runes_of_ascii "options {calculatedFrom =	int8 ~;}
-
+Eval vm_compute in ("<<<M412>>>" ++ check (runes_of_ascii "MetaData
+crc	{ char[] Z9_`{ , }`,} options { tag =
+    false } packet
+// a // b
+// @lengthOf(
+Pad {Foo @calculatedFrom( // `tick` ""quote"" 'q'
+""a\\"" f64 ,
+    trueish ,
+    char[ 00]
+    // " ++ [128512]%N ++ runes_of_ascii " emoji
+    packetx , }
 ")).
-Eval vm_compute in ("<<<M542>>>" ++ check (runes_of_ascii "
-MetaData chars {Logon ,
-    float calculatedFrom
-,  u32 i64_ ,	}")).
-Eval vm_compute in ("<<<M552>>>" ++ check (runes_of_ascii "
-MetaData chars { packetx,
-    float calculatedFrom
-,  u32 i64_ ,	}")).
-Eval vm_compute in ("<<<M562>>>" ++ check (runes_of_ascii "
- chars {Logon packetx,
-    float calculatedFrom
-,  u32 i64_ ,	}")).
+Eval vm_compute in ("<<<M422>>>" ++ check (runes_of_ascii "MetaData
+crc	{ char[] Z9_`{ , }`,} options { tag =
+    false } packet
+// a // b
+// @lengthOf(
+Pad {Foo @calculatedFrom( // `tick` ""quote"" 'q'
+""a\\"" ) ,
+    i8 ,
+    char[ 00]
+    // " ++ [128512]%N ++ runes_of_ascii " emoji
+    packetx , }
+")).
+Eval vm_compute in ("<<<M432>>>" ++ check (runes_of_ascii "MetaData
+crc	{ char[] Z9_`{ , }`,} options { tag =
+    false } packet
+// a // b
+// @lengthOf(
+Pad {Foo @calculatedFrom( // `tick` ""quote"" 'q'
+""a\\"" ) ,
+    trueish ,
+    root 00]
+    // " ++ [128512]%N ++ runes_of_ascii " emoji
+    packetx , }
+")).
+Eval vm_compute in ("<<<M442>>>" ++ check (runes_of_ascii "MetaData
+crc	{ char[] Z9_`{ , }`,} options { tag =
+    false } packet
+// a // b
+// @lengthOf(
+Pad {Foo @calculatedFrom( // `tick` ""quote"" 'q'
+""a\\"" ) ,
+    trueish ,
+    char[ 00{
+    // " ++ [128512]%N ++ runes_of_ascii " emoji
+    packetx , }
+")).
+Eval vm_compute in ("<<<M452>>>" ++ check (runes_of_ascii "MetaData
+crc	{ char[] Z9_`{ , }`,} options { tag =
+    false } packet
+// a // b
+// @lengthOf(
+Pad {Foo @calculatedFrom( // `tick` ""quote"" 'q'
+""a\\"" ) ,
+    trueish ,
+    char[ 00]
+    // " ++ [128512]%N ++ runes_of_ascii " emoji
+    packetx u32 }
+")).
+Eval vm_compute in ("<<<M462>>>" ++ check (runes_of_ascii "MetaData
+crc	{ char[] Z9_`{ , }`,} options { tag =
+    false } packet
+// a // b
+// @lengthOf(
+Pad {Foo @calculatedFrom(")).
+Eval vm_compute in ("<<<M472>>>" ++ check (runes_of_ascii "MetaData
+crc	{ char[] Z9_`{ , }`,} options { tag =
+    false } packet
+// a // b
+// @lengthOf(
+Pad {Foo @calculatedFrom(~ // `tick` ""quote"" 'q'
+""a\\"" ) ,
+    trueish ,
+    char[ 00]
+    // " ++ [128512]%N ++ runes_of_ascii " emoji
+    packetx , }
+")).
+Eval vm_compute in ("<<<M482>>>" ++ check (runes_of_ascii "root packet _x	{ @rightPad (
+' ' ) string u8x @lengthOf(
+    _x
+) , repeat Pad  { // " ++ [128512]%N ++ runes_of_ascii " emoji
+As
+// `tick` ""quote"" 'q'
+//x
+matchKey chars,
+} , }, }")).
+Eval vm_compute in ("<<<M492>>>" ++ check (runes_of_ascii "root packet _x	{ @rightPad (
+' ' ) string u8x @lengthOf(
+    a" ++ [769]%N ++ runes_of_ascii "b
+) , repeat Pad  { // " ++ [128512]%N ++ runes_of_ascii " emoji
+As
+// `tick` ""quote"" 'q'
+//x
+{matchKey chars,
+} , }, }")).
+Eval vm_compute in ("<<<M502>>>" ++ check (runes_of_ascii "root packet _x	{ @rightPad (
+' ' ) string u8x @lengthOf(
+    _x
+) , repeat Pad")).
+Eval vm_compute in ("<<<M512>>>" ++ check (runes_of_ascii "root packet _x	{ @rightPad (
+' ' ) string u8x @lengthOf(
+  ")).
+Eval vm_compute in ("<<<M522>>>" ++ check (runes_of_ascii "root packet _x	{ @rightPad :
+' ' ) string u8x @lengthOf(
+    _x
+) , repeat Pad  { // " ++ [128512]%N ++ runes_of_ascii " emoji
+As
+// `tick` ""quote"" 'q'
+//x
+{matchKey chars,
+} , }, }")).
+Eval vm_compute in ("<<<M532>>>" ++ check (runes_of_ascii "root packet _x	{ @rightPad (
+) ' ' string u8x @lengthOf(
+    _x
+) , repeat Pad  { // " ++ [128512]%N ++ runes_of_ascii " emoji
+As
+// `tick` ""quote"" 'q'
+//x
+{matchKey chars,
+} , }, }")).
+Eval vm_compute in ("<<<M542>>>" ++ check (runes_of_ascii "root packet _x	{ @rightPad (
+' ' ) string u8x @lengthOf(
+    _x
+) , repeat Pad  { // " ++ [128512]%N ++ runes_of_ascii " emoji
+As
+// `tick` ""quote"" 'q'
+//x
+{matchKey ,
+} , }, }")).
+Eval vm_compute in ("<<<M552>>>" ++ check (runes_of_ascii "root packet _x	{ @rightPad (
+' ' ) string u8x @lengthOf(
+    _x
+) , repeat Pad  { // " ++ [128512]%N ++ runes_of_ascii " emoji
+As
+// `tick` ""quote"" 'q'
+//x
+{matchKey chars,
+ , }, }")).
+Eval vm_compute in ("<<<M562>>>" ++ check (runes_of_ascii "root packet _x	{ @rightPad (
+' ' ) string u8x @lengthOf(
+    _x
+) , repeat Pad  @tag { // " ++ [128512]%N ++ runes_of_ascii " emoji
+As
+// `tick` ""quote"" 'q'
+//x
+{matchKey chars,
+} , }, }")).
 Eval vm_compute in ("<<<M572>>>" ++ check (runes_of_ascii "// a
 // b
 ")).
-Eval vm_compute in ("<<<M582>>>" ++ check (runes_of_ascii "!@P?FeW$#:`""7b54{)Mg,Ejck")).
-Eval vm_compute in ("<<<M592>>>" ++ check (runes_of_ascii ") @lengthOf( u16 repeat [ ( i8 char[ i32 float32")).
+Eval vm_compute in ("<<<M582>>>" ++ check (runes_of_ascii "7x^u3t-dk{6SGt$VI")).
+Eval vm_compute in ("<<<M592>>>" ++ check (runes_of_ascii "i64 repeat uint64 Z9_ )")).
